@@ -1,3 +1,1822 @@
 // harnesses mounted as child module of agdb/src/utilities/serialize.rs
 #[allow(unused_imports)]
 use super::*;
+
+use crate::Comparison;
+use crate::CountComparison;
+use crate::DbF64;
+use crate::DbId;
+use crate::DbKeyOrder;
+use crate::DbKeyValue;
+use crate::DbValue;
+use crate::KeyValueComparison;
+use crate::QueryCondition;
+use crate::QueryConditionData;
+use crate::QueryConditionLogic;
+use crate::QueryConditionModifier;
+use crate::QueryId;
+
+// ---------------------------------------------------------------------------
+// helpers
+// ---------------------------------------------------------------------------
+
+/// Vec<u8> of the first `n` bytes of `raw` (explicit loop, constant capacity).
+fn h_bytes<const N: usize>(raw: &[u8; N], n: usize) -> Vec<u8> {
+    let mut v = Vec::with_capacity(N);
+    let mut i = 0;
+    while i < n {
+        v.push(raw[i]);
+        i += 1;
+    }
+    v
+}
+
+/// String of the first `n` bytes of `raw`; the caller passes ASCII bytes only.
+fn h_ascii<const N: usize>(raw: &[u8; N], n: usize) -> String {
+    // SAFETY: all callers mask the bytes with 0x7f
+    unsafe { String::from_utf8_unchecked(h_bytes(raw, n)) }
+}
+
+/// Model of `String::from_utf8` for the round-trip harnesses: accepts. The
+/// harness then compares the decoded bytes with the (valid UTF-8) original, so a
+/// decoder that hands different bytes to the validator is still reported; what is
+/// outside the claim is std's validator itself (checked on concrete-length inputs
+/// by `c21_string_real_utf8`). The real validator over a heap buffer whose length
+/// the solver sees as symbolic exhausts 10 GB.
+pub(crate) fn from_utf8_accept(v: Vec<u8>) -> Result<String, std::string::FromUtf8Error> {
+    Ok(unsafe { String::from_utf8_unchecked(v) })
+}
+
+fn h_same(a: &[u8], b: &[u8]) -> bool {
+    if a.len() != b.len() {
+        return false;
+    }
+    let mut i = 0;
+    while i < a.len() {
+        if a[i] != b[i] {
+            return false;
+        }
+        i += 1;
+    }
+    true
+}
+
+/// C20 oracle, part 1: `serialize(x).len() == serialized_size(x)`; returns the bytes.
+fn c20_sized<T: Serialize>(x: &T) -> Vec<u8> {
+    let bytes = x.serialize();
+    assert!(
+        bytes.len() as u64 == x.serialized_size(),
+        "serialize(x).len() differs from serialized_size(x)"
+    );
+    bytes
+}
+
+/// C20 oracle, part 2: `deserialize(bytes)` is `Ok`; returns the value.
+fn c20_back<T: Serialize>(bytes: &[u8]) -> T {
+    match T::deserialize(bytes) {
+        Ok(v) => v,
+        Err(e) => {
+            std::mem::forget(e);
+            panic!("deserialize(serialize(x)) returned Err")
+        }
+    }
+}
+
+/// C20 oracle for types with `PartialEq`.
+fn c20_round_trip<T: Serialize + PartialEq>(x: &T) {
+    let bytes = c20_sized(x);
+    let y: T = c20_back(&bytes);
+    assert!(y == *x, "deserialize(serialize(x)) differs from x");
+    std::mem::forget(y);
+    std::mem::forget(bytes);
+}
+
+fn c20_static<T: SerializeStatic>(x: &T) {
+    assert!(
+        T::serialized_size_static() == x.serialized_size(),
+        "serialized_size_static differs from serialized_size"
+    );
+}
+
+// ---------------------------------------------------------------------------
+// C20: built-in impls
+// ---------------------------------------------------------------------------
+
+//@ id=C20 tier=quick timeout=300 bounds="all i64/u64/usize/f64 bit patterns, both bools, all DbF64/DbId" desc="fixed-size built-ins round-trip (floats compared by bits), serialize().len()==serialized_size()==serialized_size_static()" kernel="i64::serialize,i64::deserialize,u64::serialize,u64::deserialize,f64::serialize,f64::deserialize,usize::serialize,usize::deserialize,bool::serialize,bool::deserialize,DbF64::serialize,DbF64::deserialize,DbId::serialize,DbId::deserialize"
+#[kani::proof]
+#[kani::stub(std::fmt::format, crate::verif_support::fmt_stub)]
+#[kani::stub(crate::DbError::new, crate::verif_support::dberror_new_stub)]
+#[kani::unwind(10)]
+fn c20_scalars() {
+    let a: i64 = kani::any();
+    c20_round_trip(&a);
+    c20_static(&a);
+    assert!(a.serialized_size() == 8, "i64 takes 8 bytes");
+
+    let b: u64 = kani::any();
+    c20_round_trip(&b);
+    c20_static(&b);
+
+    let c: usize = kani::any();
+    c20_round_trip(&c);
+
+    let d: f64 = kani::any();
+    let bytes = c20_sized(&d);
+    let d2: f64 = c20_back(&bytes);
+    assert!(d2.to_bits() == d.to_bits(), "f64 round trip differs (bits)");
+    c20_static(&d);
+    std::mem::forget(bytes);
+
+    let e: bool = kani::any();
+    c20_round_trip(&e);
+
+    let f = DbF64::from(kani::any::<f64>());
+    let bytes = c20_sized(&f);
+    let f2: DbF64 = c20_back(&bytes);
+    assert!(f2.to_f64().to_bits() == f.to_f64().to_bits(), "DbF64 round trip differs (bits)");
+    std::mem::forget(bytes);
+
+    let g = DbId(kani::any());
+    c20_round_trip(&g);
+
+    kani::cover!(d.is_nan(), "NaN explored");
+    kani::cover!(a < 0 && g.0 < 0, "negative values explored");
+    kani::cover!(true, "end of harness reachable");
+}
+
+//@ id=C20 tier=quick timeout=300 bounds="ASCII strings of 0..=6 bytes" desc="String round-trips, serialize().len()==serialized_size()==8+len" kernel="String::serialize,String::deserialize,String::serialized_size"
+#[kani::proof]
+#[kani::stub(std::fmt::format, crate::verif_support::fmt_stub)]
+#[kani::stub(crate::DbError::new, crate::verif_support::dberror_new_stub)]
+#[kani::stub(<crate::DbError as std::convert::From<std::string::FromUtf8Error>>::from, crate::verif_support::utf8err_stub)]
+#[kani::stub(std::string::String::from_utf8, from_utf8_accept)]
+#[kani::unwind(8)]
+fn c20_string_ascii() {
+    let t: [u8; 6] = kani::any();
+    let raw = [t[0] & 0x7f, t[1] & 0x7f, t[2] & 0x7f, t[3] & 0x7f, t[4] & 0x7f, t[5] & 0x7f];
+    let n: usize = kani::any();
+    kani::assume(n <= 6);
+    // one call per concrete length: allocation and copy sizes stay constant
+    let mut k = 0;
+    while k <= 6 {
+        if n == k {
+            c20_string_len(&raw, k);
+        }
+        k += 1;
+    }
+    kani::cover!(n == 6, "6 ASCII bytes explored");
+    kani::cover!(n == 0, "empty string explored");
+    kani::cover!(true, "end of harness reachable");
+}
+
+fn c20_string_len(raw: &[u8; 6], n: usize) {
+    let s = h_ascii(raw, n);
+    let bytes = c20_sized(&s);
+    assert!(bytes.len() == 8 + n, "String takes 8 + len bytes");
+    let t: String = c20_back(&bytes);
+    assert!(h_same(t.as_bytes(), &raw[..n]), "String round trip differs");
+    std::mem::forget(t);
+    std::mem::forget(bytes);
+    std::mem::forget(s);
+}
+
+//@ id=C20 tier=quick timeout=400 bounds="every valid UTF-8 string of 0..=4 bytes" desc="non-ASCII String round-trips, serialize().len()==serialized_size()==8+len" kernel="String::serialize,String::deserialize,String::serialized_size" cbmc="--unwindset _RNvNtNtCs8xvirJzNMvV_4core3str11validations19run_utf8_validation.0:2"
+#[kani::proof]
+#[kani::stub(std::fmt::format, crate::verif_support::fmt_stub)]
+#[kani::stub(crate::DbError::new, crate::verif_support::dberror_new_stub)]
+#[kani::stub(<crate::DbError as std::convert::From<std::string::FromUtf8Error>>::from, crate::verif_support::utf8err_stub)]
+#[kani::stub(std::string::String::from_utf8, from_utf8_accept)]
+#[kani::unwind(6)]
+fn c20_string_unicode() {
+    let raw: [u8; 4] = kani::any();
+    let n: usize = kani::any();
+    kani::assume(n <= 4);
+    let mut k = 0;
+    while k <= 4 {
+        if n == k {
+            kani::assume(std::str::from_utf8(&raw[..k]).is_ok());
+            let u = unsafe { String::from_utf8_unchecked(h_bytes(&raw, k)) };
+            let bytes = c20_sized(&u);
+            assert!(bytes.len() == 8 + k, "String takes 8 + len bytes");
+            let w: String = c20_back(&bytes);
+            assert!(h_same(w.as_bytes(), &raw[..k]), "unicode String round trip differs");
+            std::mem::forget(w);
+            std::mem::forget(bytes);
+            std::mem::forget(u);
+        }
+        k += 1;
+    }
+    kani::cover!(n == 4 && raw[0] >= 0xf0, "4-byte scalar explored");
+    kani::cover!(n == 4 && raw[0] >= 0xc0 && raw[0] < 0xe0 && raw[2] >= 0xc0, "two 2-byte scalars explored");
+    kani::cover!(n == 3 && raw[0] >= 0xe0, "3-byte scalar explored");
+    kani::cover!(true, "end of harness reachable");
+}
+
+//@ id=C20 tier=quick timeout=300 bounds="byte vectors of 0..=6 arbitrary bytes" desc="Vec<u8> round-trips, serialize().len()==serialized_size()" kernel="Vec<u8>::serialize,Vec<u8>::deserialize,Vec<u8>::serialized_size"
+#[kani::proof]
+#[kani::stub(std::fmt::format, crate::verif_support::fmt_stub)]
+#[kani::stub(crate::DbError::new, crate::verif_support::dberror_new_stub)]
+#[kani::unwind(10)]
+fn c20_bytes() {
+    let raw: [u8; 6] = kani::any();
+    let n: usize = kani::any();
+    kani::assume(n <= 6);
+    // one call per concrete length: allocation and copy sizes stay constant
+    let mut k = 0;
+    while k <= 6 {
+        if n == k {
+            c20_bytes_len(&raw, k);
+        }
+        k += 1;
+    }
+    kani::cover!(n == 6, "6 bytes explored");
+    kani::cover!(n == 0, "empty explored");
+    kani::cover!(true, "end of harness reachable");
+}
+
+fn c20_bytes_len(raw: &[u8; 6], n: usize) {
+    let v = h_bytes(raw, n);
+    let bytes = c20_sized(&v);
+    assert!(bytes.len() == 8 + n, "Vec<u8> takes 8 + len bytes");
+    let t: Vec<u8> = c20_back(&bytes);
+    assert!(h_same(&t, &raw[..n]), "Vec<u8> round trip differs");
+    std::mem::forget(t);
+    std::mem::forget(bytes);
+    std::mem::forget(v);
+}
+
+//@ id=C20 tier=quick timeout=300 bounds="UNIX_EPOCH +/- (secs < 2^40, nanos < 10^9)" desc="SystemTime round-trips on both sides of the epoch and takes 13 bytes" kernel="SystemTime::serialize,SystemTime::deserialize,SystemTime::serialized_size"
+#[kani::proof]
+#[kani::stub(std::fmt::format, crate::verif_support::fmt_stub)]
+#[kani::stub(crate::DbError::new, crate::verif_support::dberror_new_stub)]
+#[kani::unwind(10)]
+fn c20_system_time() {
+    let secs: u64 = kani::any();
+    let nanos: u32 = kani::any();
+    let before: bool = kani::any();
+    kani::assume(secs < (1 << 40));
+    kani::assume(nanos < 1_000_000_000);
+    let d = Duration::new(secs, nanos);
+    let t = if before { UNIX_EPOCH - d } else { UNIX_EPOCH + d };
+    let bytes = c20_sized(&t);
+    assert!(bytes.len() == 13, "SystemTime takes 13 bytes");
+    let u: SystemTime = c20_back(&bytes);
+    assert!(u == t, "SystemTime round trip differs");
+    kani::cover!(before && nanos > 0 && secs > 0, "before epoch with nanos explored");
+    kani::cover!(!before && nanos > 0, "after epoch with nanos explored");
+    kani::cover!(true, "end of harness reachable");
+    std::mem::forget(bytes);
+}
+
+// ---------------------------------------------------------------------------
+// C20: Vec<T>
+// ---------------------------------------------------------------------------
+
+/// `Vec<T>` of the first `n` elements of `raw`.
+fn h_vec<T: Copy, const N: usize>(raw: &[T; N], n: usize) -> Vec<T> {
+    let mut v = Vec::with_capacity(N);
+    let mut i = 0;
+    while i < n {
+        v.push(raw[i]);
+        i += 1;
+    }
+    v
+}
+
+/// Round trip of `Vec<T>` for each concrete length 0..=2, elements compared through `key`.
+fn c20_vec_lengths<T: Serialize + Copy, K: PartialEq>(raw: &[T; 2], n: usize, elem_size: usize, key: fn(&T) -> K) {
+    let mut k = 0;
+    while k <= 2 {
+        if n == k {
+            let v = h_vec(raw, k);
+            let bytes = c20_sized(&v);
+            assert!(bytes.len() == 8 + elem_size * k, "Vec<T> takes 8 + size*len bytes");
+            let w: Vec<T> = c20_back(&bytes);
+            assert!(w.len() == k, "Vec<T> length differs");
+            let mut j = 0;
+            while j < k {
+                assert!(key(&w[j]) == key(&raw[j]), "Vec<T> element differs");
+                j += 1;
+            }
+            std::mem::forget((v, bytes, w));
+        }
+        k += 1;
+    }
+}
+
+//@ id=C20 tier=quick timeout=300 bounds="vectors of 0..=2 arbitrary i64 / u64" desc="Vec<i64>, Vec<u64> round-trip element by element, serialize().len()==serialized_size()==8+8*len" kernel="Vec<T>::serialize,Vec<T>::deserialize,Vec<T>::serialized_size"
+#[kani::proof]
+#[kani::stub(std::fmt::format, crate::verif_support::fmt_stub)]
+#[kani::stub(crate::DbError::new, crate::verif_support::dberror_new_stub)]
+#[kani::unwind(5)]
+fn c20_vec_of_i64_u64() {
+    let i: [i64; 2] = kani::any();
+    let u: [u64; 2] = kani::any();
+    let n: usize = kani::any();
+    kani::assume(n <= 2);
+    c20_vec_lengths(&i, n, 8, |x| *x);
+    c20_vec_lengths(&u, n, 8, |x| *x);
+    kani::cover!(n == 2 && i[1] < 0, "two elements explored");
+    kani::cover!(n == 0, "empty vector explored");
+    kani::cover!(true, "end of harness reachable");
+}
+
+//@ id=C20 tier=quick timeout=300 bounds="vectors of 0..=2 arbitrary f64 / DbF64 (all bit patterns)" desc="Vec<f64>, Vec<DbF64> round-trip element by element (compared by bits), serialize().len()==serialized_size()" kernel="Vec<T>::serialize,Vec<T>::deserialize,Vec<T>::serialized_size,DbF64::deserialize"
+#[kani::proof]
+#[kani::stub(std::fmt::format, crate::verif_support::fmt_stub)]
+#[kani::stub(crate::DbError::new, crate::verif_support::dberror_new_stub)]
+#[kani::unwind(5)]
+fn c20_vec_of_floats() {
+    let f: [f64; 2] = kani::any();
+    let d = [DbF64::from(kani::any::<f64>()), DbF64::from(kani::any::<f64>())];
+    let n: usize = kani::any();
+    kani::assume(n <= 2);
+    c20_vec_lengths(&f, n, 8, |x| x.to_bits());
+    c20_vec_lengths(&d, n, 8, |x| x.to_f64().to_bits());
+    kani::cover!(n == 2 && f[0].is_nan() && d[1].to_f64().is_nan(), "two elements with NaN explored");
+    kani::cover!(n == 0, "empty vector explored");
+    kani::cover!(true, "end of harness reachable");
+}
+
+//@ id=C20 tier=quick timeout=300 bounds="vectors of 0..=2 arbitrary bool / usize" desc="Vec<bool> (1-byte elements), Vec<usize> round-trip element by element, serialize().len()==serialized_size()" kernel="Vec<T>::serialize,Vec<T>::deserialize,Vec<T>::serialized_size,bool::deserialize,usize::deserialize"
+#[kani::proof]
+#[kani::stub(std::fmt::format, crate::verif_support::fmt_stub)]
+#[kani::stub(crate::DbError::new, crate::verif_support::dberror_new_stub)]
+#[kani::unwind(5)]
+fn c20_vec_of_bool_usize() {
+    let b: [bool; 2] = kani::any();
+    let z: [usize; 2] = kani::any();
+    let n: usize = kani::any();
+    kani::assume(n <= 2);
+    c20_vec_lengths(&b, n, 1, |x| *x);
+    c20_vec_lengths(&z, n, 8, |x| *x);
+    kani::cover!(n == 2 && b[0] && !b[1], "two different bools explored");
+    kani::cover!(n == 0, "empty vector explored");
+    kani::cover!(true, "end of harness reachable");
+}
+
+/// Vec<String> with `n` elements of the given concrete lengths (ASCII from `raw`).
+fn h_strings(raw: &[[u8; 3]; 2], n: usize, l0: usize, l1: usize) -> Vec<String> {
+    let mut v = Vec::with_capacity(2);
+    if n >= 1 {
+        v.push(h_ascii(&raw[0], l0));
+    }
+    if n >= 2 {
+        v.push(h_ascii(&raw[1], l1));
+    }
+    v
+}
+
+fn h_ascii_raw() -> [[u8; 3]; 2] {
+    let t: [[u8; 3]; 2] = kani::any();
+    [
+        [t[0][0] & 0x7f, t[0][1] & 0x7f, t[0][2] & 0x7f],
+        [t[1][0] & 0x7f, t[1][1] & 0x7f, t[1][2] & 0x7f],
+    ]
+}
+
+fn c20_vec_string_shape(raw: &[[u8; 3]; 2], n: usize, l0: usize, l1: usize) {
+    let v = h_strings(raw, n, l0, l1);
+    let bytes = c20_sized(&v);
+    let mut expect = 8;
+    if n >= 1 {
+        expect += 8 + l0;
+    }
+    if n >= 2 {
+        expect += 8 + l1;
+    }
+    assert!(bytes.len() == expect, "Vec<String> takes 8 + sum(8 + len) bytes");
+    let w: Vec<String> = c20_back(&bytes);
+    assert!(w.len() == n, "Vec<String> length differs");
+    if n >= 1 {
+        assert!(h_same(w[0].as_bytes(), &raw[0][..l0]), "Vec<String> element 0 differs");
+    }
+    if n >= 2 {
+        assert!(h_same(w[1].as_bytes(), &raw[1][..l1]), "Vec<String> element 1 differs");
+    }
+    std::mem::forget((v, bytes, w));
+}
+
+//@ id=C20 tier=quick timeout=400 bounds="Vec<String> of 0..=1 ASCII strings of 0..=3 bytes, and 2 strings of lengths (0,0),(1,2)" desc="Vec<String> round-trips, serialize().len()==serialized_size()==8+sum(8+len)" kernel="Vec<T>::serialize,Vec<T>::deserialize,Vec<T>::serialized_size,String::deserialize"
+#[kani::proof]
+#[kani::stub(std::fmt::format, crate::verif_support::fmt_stub)]
+#[kani::stub(crate::DbError::new, crate::verif_support::dberror_new_stub)]
+#[kani::stub(<crate::DbError as std::convert::From<std::string::FromUtf8Error>>::from, crate::verif_support::utf8err_stub)]
+#[kani::stub(std::string::String::from_utf8, from_utf8_accept)]
+#[kani::unwind(5)]
+fn c20_vec_of_string_short() {
+    let raw = h_ascii_raw();
+    let shape: u8 = kani::any();
+    match shape {
+        0 => c20_vec_string_shape(&raw, 0, 0, 0),
+        1 => c20_vec_string_shape(&raw, 1, 0, 0),
+        2 => c20_vec_string_shape(&raw, 1, 3, 0),
+        3 => c20_vec_string_shape(&raw, 1, 2, 0),
+        4 => c20_vec_string_shape(&raw, 2, 0, 0),
+        _ => c20_vec_string_shape(&raw, 2, 1, 2),
+    }
+    kani::cover!(shape == 5, "strings of 1 and 2 bytes explored");
+    kani::cover!(shape == 0, "empty Vec<String> explored");
+    kani::cover!(true, "end of harness reachable");
+}
+
+//@ id=C20 tier=quick timeout=400 bounds="Vec<String> of 2 ASCII strings of lengths (3,0),(0,3),(3,3),(2,1)" desc="Vec<String> round-trips, serialize().len()==serialized_size()==8+sum(8+len)" kernel="Vec<T>::serialize,Vec<T>::deserialize,Vec<T>::serialized_size,String::deserialize"
+#[kani::proof]
+#[kani::stub(std::fmt::format, crate::verif_support::fmt_stub)]
+#[kani::stub(crate::DbError::new, crate::verif_support::dberror_new_stub)]
+#[kani::stub(<crate::DbError as std::convert::From<std::string::FromUtf8Error>>::from, crate::verif_support::utf8err_stub)]
+#[kani::stub(std::string::String::from_utf8, from_utf8_accept)]
+#[kani::unwind(5)]
+fn c20_vec_of_string_pairs() {
+    let raw = h_ascii_raw();
+    let shape: u8 = kani::any();
+    match shape {
+        0 => c20_vec_string_shape(&raw, 2, 3, 0),
+        1 => c20_vec_string_shape(&raw, 2, 0, 3),
+        2 => c20_vec_string_shape(&raw, 2, 3, 3),
+        _ => c20_vec_string_shape(&raw, 2, 2, 1),
+    }
+    kani::cover!(shape == 2, "two 3-byte strings explored");
+    kani::cover!(shape == 1, "empty then 3-byte string explored");
+    kani::cover!(true, "end of harness reachable");
+}
+
+//@ id=C20 tier=quick timeout=500 bounds="Vec<Vec<u8>> of byte vectors of 2 and 0 bytes; Vec<SystemTime> of 2 times (epoch + (secs<2^40,nanos<10^9), epoch - secs<2^40)" desc="nested byte vectors and 13-byte time elements round-trip inside Vec<T>, serialize().len()==serialized_size()" kernel="Vec<T>::serialize,Vec<T>::deserialize,Vec<T>::serialized_size,Vec<u8>::deserialize,SystemTime::deserialize"
+#[kani::proof]
+#[kani::stub(std::fmt::format, crate::verif_support::fmt_stub)]
+#[kani::stub(crate::DbError::new, crate::verif_support::dberror_new_stub)]
+#[kani::unwind(5)]
+fn c20_vec_of_bytes_and_times() {
+    let raw: [[u8; 3]; 2] = kani::any();
+    let v = vec![h_bytes(&raw[0], 2), h_bytes(&raw[1], 0)];
+    let bytes = c20_sized(&v);
+    assert!(bytes.len() == 8 + 10 + 8, "Vec<Vec<u8>> takes 8 + sum(8 + len) bytes");
+    let w: Vec<Vec<u8>> = c20_back(&bytes);
+    assert!(w.len() == 2, "Vec<Vec<u8>> length differs");
+    assert!(h_same(&w[0], &raw[0][..2]), "Vec<Vec<u8>> element 0 differs");
+    assert!(w[1].is_empty(), "Vec<Vec<u8>> element 1 differs");
+    std::mem::forget((v, bytes, w));
+
+    let s0: u64 = kani::any();
+    let s1: u64 = kani::any();
+    let n0: u32 = kani::any();
+    kani::assume(s0 < (1 << 40) && s1 < (1 << 40) && n0 < 1_000_000_000);
+    let v = vec![UNIX_EPOCH + Duration::new(s0, n0), UNIX_EPOCH - Duration::new(s1, 0)];
+    let bytes = c20_sized(&v);
+    assert!(bytes.len() == 8 + 26, "Vec<SystemTime> takes 8 + 13*len bytes");
+    let w: Vec<SystemTime> = c20_back(&bytes);
+    assert!(w.len() == 2 && w[0] == v[0] && w[1] == v[1], "Vec<SystemTime> differs");
+    std::mem::forget((v, bytes, w));
+    kani::cover!(s1 > 0 && n0 > 0, "before and after epoch explored");
+    kani::cover!(true, "end of harness reachable");
+}
+
+// ---------------------------------------------------------------------------
+// C20: DbValue and the query types (derive(DbSerialize) inside the crate)
+// ---------------------------------------------------------------------------
+
+/// Symbolic payload from which values of a concrete shape are built.
+struct C20Raw {
+    /// arbitrary bytes
+    b: [u8; 6],
+    /// ASCII bytes
+    s: [u8; 6],
+    /// ASCII bytes for string vectors
+    a: [[u8; 3]; 2],
+    i: [i64; 2],
+    u: [u64; 2],
+    f: [f64; 2],
+}
+
+fn c20_raw() -> C20Raw {
+    let t: [u8; 6] = kani::any();
+    C20Raw {
+        b: kani::any(),
+        s: [t[0] & 0x7f, t[1] & 0x7f, t[2] & 0x7f, t[3] & 0x7f, t[4] & 0x7f, t[5] & 0x7f],
+        a: h_ascii_raw(),
+        i: kani::any(),
+        u: kani::any(),
+        f: kani::any(),
+    }
+}
+
+const C20_DBV_SHAPES: usize = 27;
+
+/// A `DbValue` of concrete shape `sel` (variant and lengths) with symbolic content.
+/// 0..=2 Bytes(0,1,6 bytes) 3 I64 4 U64 5 F64 6..=8 String(0,2,6) 9..=11 VecI64(0,1,2)
+/// 12..=14 VecU64 15..=17 VecF64 18..=26 VecString ([],[0],[3],[2],[0,0],[1,2],[3,0],[0,3],[3,3])
+fn c20_db_value(sel: usize, r: &C20Raw) -> DbValue {
+    match sel {
+        0 => DbValue::Bytes(h_bytes(&r.b, 0)),
+        1 => DbValue::Bytes(h_bytes(&r.b, 1)),
+        2 => DbValue::Bytes(h_bytes(&r.b, 6)),
+        3 => DbValue::I64(r.i[0]),
+        4 => DbValue::U64(r.u[0]),
+        5 => DbValue::F64(DbF64::from(r.f[0])),
+        6 => DbValue::String(h_ascii(&r.s, 0)),
+        7 => DbValue::String(h_ascii(&r.s, 2)),
+        8 => DbValue::String(h_ascii(&r.s, 6)),
+        9 => DbValue::VecI64(h_vec(&r.i, 0)),
+        10 => DbValue::VecI64(h_vec(&r.i, 1)),
+        11 => DbValue::VecI64(h_vec(&r.i, 2)),
+        12 => DbValue::VecU64(h_vec(&r.u, 0)),
+        13 => DbValue::VecU64(h_vec(&r.u, 1)),
+        14 => DbValue::VecU64(h_vec(&r.u, 2)),
+        15 => DbValue::VecF64(h_vec(&[DbF64::from(r.f[0]), DbF64::from(r.f[1])], 0)),
+        16 => DbValue::VecF64(h_vec(&[DbF64::from(r.f[0]), DbF64::from(r.f[1])], 1)),
+        17 => DbValue::VecF64(h_vec(&[DbF64::from(r.f[0]), DbF64::from(r.f[1])], 2)),
+        18 => DbValue::VecString(h_strings(&r.a, 0, 0, 0)),
+        19 => DbValue::VecString(h_strings(&r.a, 1, 0, 0)),
+        20 => DbValue::VecString(h_strings(&r.a, 1, 3, 0)),
+        21 => DbValue::VecString(h_strings(&r.a, 1, 2, 0)),
+        22 => DbValue::VecString(h_strings(&r.a, 2, 0, 0)),
+        23 => DbValue::VecString(h_strings(&r.a, 2, 1, 2)),
+        24 => DbValue::VecString(h_strings(&r.a, 2, 3, 0)),
+        25 => DbValue::VecString(h_strings(&r.a, 2, 0, 3)),
+        _ => DbValue::VecString(h_strings(&r.a, 2, 3, 3)),
+    }
+}
+
+/// Serialized length of shape `sel` according to the documented layout
+/// (1 tag byte; scalars 8; strings/bytes 8+len; vectors 8+elements).
+fn c20_db_value_len(sel: usize) -> usize {
+    match sel {
+        0 => 9,
+        1 => 10,
+        2 => 15,
+        3 | 4 | 5 => 9,
+        6 => 9,
+        7 => 11,
+        8 => 15,
+        9 | 12 | 15 => 9,
+        10 | 13 | 16 => 17,
+        11 | 14 | 17 => 25,
+        18 => 9,
+        19 => 17,
+        20 => 20,
+        21 => 19,
+        22 => 25,
+        23 => 28,
+        24 | 25 => 28,
+        _ => 31,
+    }
+}
+
+/// Runs `$check($k, $r)` for the one `$k` of the listed concrete shapes that equals `$sel`
+/// (straight-line code: inside each call the shape is a compile-time constant).
+macro_rules! c20_split {
+    ($sel:expr, $check:expr, $r:expr, [$($k:literal),*]) => {
+        $( if $sel == $k { $check($k, $r); } )*
+    };
+}
+
+fn c20_check_db_value(sel: usize, r: &C20Raw) {
+    let x = c20_db_value(sel, r);
+    let bytes = c20_sized(&x);
+    assert!(bytes.len() == c20_db_value_len(sel), "DbValue serialized length differs from 1 + payload");
+    let y: DbValue = c20_back(&bytes);
+    assert!(y == x, "DbValue round trip differs");
+    // the f64 payload is compared by bits as well (DbF64 == is total_cmp)
+    if let (DbValue::F64(p), DbValue::F64(q)) = (&x, &y) {
+        assert!(p.to_f64().to_bits() == q.to_f64().to_bits(), "DbValue::F64 bits differ");
+    }
+    std::mem::forget((x, bytes, y));
+}
+
+//@ id=C20 tier=quick timeout=400 bounds="DbValue::Bytes of 0,1,6 bytes; I64, U64, F64 arbitrary; String of 0,2,6 ASCII bytes" desc="DbValue (Bytes, I64, U64, F64, String variants) round-trips; serialize().len()==serialized_size()==1+payload" kernel="DbValue::serialize,DbValue::deserialize,DbValue::serialized_size"
+#[kani::proof]
+#[kani::stub(std::fmt::format, crate::verif_support::fmt_stub)]
+#[kani::stub(crate::DbError::new, crate::verif_support::dberror_new_stub)]
+#[kani::stub(<crate::DbError as std::convert::From<std::string::FromUtf8Error>>::from, crate::verif_support::utf8err_stub)]
+#[kani::stub(std::string::String::from_utf8, from_utf8_accept)]
+#[kani::unwind(8)]
+fn c20_db_value_flat_variants() {
+    let r = c20_raw();
+    let sel: usize = kani::any();
+    kani::assume(sel <= 8);
+    c20_split!(sel, c20_check_db_value, &r, [0, 1, 2, 3, 4, 5, 6, 7, 8]);
+    kani::cover!(sel == 2, "6 bytes explored");
+    kani::cover!(sel == 5 && r.f[0].is_nan(), "NaN explored");
+    kani::cover!(sel == 8, "6-byte string explored");
+    kani::cover!(true, "end of harness reachable");
+}
+
+//@ id=C20 tier=quick timeout=500 bounds="DbValue::VecI64/VecU64/VecF64 of 0..=2 arbitrary elements" desc="DbValue numeric vector variants round-trip; serialize().len()==serialized_size()==1+8+8*len" kernel="DbValue::serialize,DbValue::deserialize,DbValue::serialized_size,Vec<T>::deserialize" cbmc="--unwindset memcmp.0:18"
+#[kani::proof]
+#[kani::stub(std::fmt::format, crate::verif_support::fmt_stub)]
+#[kani::stub(crate::DbError::new, crate::verif_support::dberror_new_stub)]
+#[kani::unwind(5)]
+fn c20_db_value_numeric_vectors() {
+    let r = c20_raw();
+    let sel: usize = kani::any();
+    kani::assume(sel >= 9 && sel <= 17);
+    c20_split!(sel, c20_check_db_value, &r, [9, 10, 11, 12, 13, 14, 15, 16, 17]);
+    kani::cover!(sel == 11, "two i64 explored");
+    kani::cover!(sel == 17 && r.f[1].is_nan(), "two f64 with NaN explored");
+    kani::cover!(sel == 12, "empty VecU64 explored");
+    kani::cover!(true, "end of harness reachable");
+}
+
+//@ id=C20 tier=quick timeout=500 bounds="DbValue::VecString: [], [0 bytes], [3], [2], [1,2] (ASCII)" desc="DbValue::VecString round-trips; serialize().len()==serialized_size()==1+8+sum(8+len)" kernel="DbValue::serialize,DbValue::deserialize,DbValue::serialized_size,Vec<T>::deserialize,String::deserialize"
+#[kani::proof]
+#[kani::stub(std::fmt::format, crate::verif_support::fmt_stub)]
+#[kani::stub(crate::DbError::new, crate::verif_support::dberror_new_stub)]
+#[kani::stub(<crate::DbError as std::convert::From<std::string::FromUtf8Error>>::from, crate::verif_support::utf8err_stub)]
+#[kani::stub(std::string::String::from_utf8, from_utf8_accept)]
+#[kani::unwind(5)]
+fn c20_db_value_vec_string_small() {
+    let r = c20_raw();
+    let sel: usize = kani::any();
+    kani::assume(sel >= 18 && sel <= 23 && sel != 22);
+    c20_split!(sel, c20_check_db_value, &r, [18, 19, 20, 21, 23]);
+    kani::cover!(sel == 23, "strings of 1 and 2 bytes explored");
+    kani::cover!(sel == 18, "empty VecString explored");
+    kani::cover!(true, "end of harness reachable");
+}
+
+//@ id=C20 tier=quick timeout=900 bounds="DbValue::VecString of 2 ASCII strings of lengths (0,0),(3,0),(0,3),(3,3)" desc="DbValue::VecString round-trips; serialize().len()==serialized_size()==1+8+sum(8+len)" kernel="DbValue::serialize,DbValue::deserialize,DbValue::serialized_size,Vec<T>::deserialize,String::deserialize"
+#[kani::proof]
+#[kani::stub(std::fmt::format, crate::verif_support::fmt_stub)]
+#[kani::stub(crate::DbError::new, crate::verif_support::dberror_new_stub)]
+#[kani::stub(<crate::DbError as std::convert::From<std::string::FromUtf8Error>>::from, crate::verif_support::utf8err_stub)]
+#[kani::stub(std::string::String::from_utf8, from_utf8_accept)]
+#[kani::unwind(5)]
+fn c20_db_value_vec_string_pairs() {
+    let r = c20_raw();
+    let sel: usize = kani::any();
+    kani::assume(sel == 22 || (sel >= 24 && sel <= 26));
+    c20_split!(sel, c20_check_db_value, &r, [22, 24, 25, 26]);
+    kani::cover!(sel == 26, "two 3-byte strings explored");
+    kani::cover!(sel == 25, "empty then 3-byte string explored");
+    kani::cover!(true, "end of harness reachable");
+}
+
+// --- DbKeyValue ------------------------------------------------------------
+
+fn c20_check_key_value(pair: usize, r: &C20Raw) {
+    // (key shape, value shape): every value variant once, keys of several kinds
+    let (ks, vs) = match pair {
+        0 => (7, 3),   // "ab": i64
+        1 => (7, 0),   // "ab": empty bytes
+        2 => (8, 2),   // "abcdef": 6 bytes
+        3 => (3, 7),   // i64: "ab"
+        4 => (6, 5),   // "": f64
+        5 => (1, 4),   // 1 byte: u64
+        6 => (7, 10),  // "ab": [i64]
+        7 => (4, 14),  // u64: [u64, u64]
+        8 => (7, 16),  // "ab": [f64]
+        9 => (7, 23),  // "ab": ["a", "bc"]
+        _ => (9, 18),  // []: [] of strings
+    };
+    let x = DbKeyValue {
+        key: c20_db_value(ks, r),
+        value: c20_db_value(vs, r),
+    };
+    let bytes = c20_sized(&x);
+    assert!(
+        bytes.len() == c20_db_value_len(ks) + c20_db_value_len(vs),
+        "DbKeyValue serialized length differs from key + value"
+    );
+    let y: DbKeyValue = c20_back(&bytes);
+    assert!(y.key == x.key, "DbKeyValue key differs after round trip");
+    assert!(y.value == x.value, "DbKeyValue value differs after round trip");
+    std::mem::forget((x, bytes, y));
+}
+
+//@ id=C20 tier=quick timeout=1000 bounds="DbKeyValue with (key,value) shapes: (str2,i64) (str2,bytes0) (str6,bytes6) (i64,str2) (str0,f64) (bytes1,u64); contents arbitrary" desc="DbKeyValue round-trips field by field; serialize().len()==serialized_size()==size(key)+size(value)" kernel="DbKeyValue::serialize,DbKeyValue::deserialize,DbKeyValue::serialized_size,DbValue::deserialize"
+#[kani::proof]
+#[kani::stub(std::fmt::format, crate::verif_support::fmt_stub)]
+#[kani::stub(crate::DbError::new, crate::verif_support::dberror_new_stub)]
+#[kani::stub(<crate::DbError as std::convert::From<std::string::FromUtf8Error>>::from, crate::verif_support::utf8err_stub)]
+#[kani::stub(std::string::String::from_utf8, from_utf8_accept)]
+#[kani::unwind(8)]
+fn c20_key_value_flat_values() {
+    let r = c20_raw();
+    let sel: usize = kani::any();
+    kani::assume(sel <= 5);
+    c20_split!(sel, c20_check_key_value, &r, [0, 1, 2, 3, 4, 5]);
+    kani::cover!(sel == 2, "6-byte key and value explored");
+    kani::cover!(sel == 3, "integer key explored");
+    kani::cover!(true, "end of harness reachable");
+}
+
+//@ id=C20 tier=quick timeout=900 bounds="DbKeyValue with (key,value) shapes: (str2,[i64]) (u64,[u64;2]) (str2,[f64]) (str2,[str1,str2]) ([],[] of strings); contents arbitrary" desc="DbKeyValue with vector values round-trips field by field; serialize().len()==serialized_size()==size(key)+size(value)" kernel="DbKeyValue::serialize,DbKeyValue::deserialize,DbKeyValue::serialized_size,DbValue::deserialize" cbmc="--unwindset memcmp.0:18"
+#[kani::proof]
+#[kani::stub(std::fmt::format, crate::verif_support::fmt_stub)]
+#[kani::stub(crate::DbError::new, crate::verif_support::dberror_new_stub)]
+#[kani::stub(<crate::DbError as std::convert::From<std::string::FromUtf8Error>>::from, crate::verif_support::utf8err_stub)]
+#[kani::stub(std::string::String::from_utf8, from_utf8_accept)]
+#[kani::unwind(5)]
+fn c20_key_value_vector_values() {
+    let r = c20_raw();
+    let sel: usize = kani::any();
+    kani::assume(sel >= 6 && sel <= 10);
+    c20_split!(sel, c20_check_key_value, &r, [6, 7, 8, 9, 10]);
+    kani::cover!(sel == 9, "string vector value explored");
+    kani::cover!(sel == 7, "two u64 explored");
+    kani::cover!(true, "end of harness reachable");
+}
+
+// --- QueryId, CountComparison ------------------------------------------------
+
+fn c20_check_query_id(sel: usize, r: &C20Raw) {
+    if sel == 0 {
+        let x = QueryId::Id(DbId(r.i[0]));
+        let bytes = c20_sized(&x);
+        assert!(bytes.len() == 9, "QueryId::Id takes 9 bytes");
+        let y: QueryId = c20_back(&bytes);
+        assert!(matches!(y, QueryId::Id(DbId(v)) if v == r.i[0]), "QueryId::Id round trip differs");
+        std::mem::forget((x, bytes, y));
+        return;
+    }
+    let n = match sel {
+        1 => 0,
+        2 => 1,
+        _ => 3,
+    };
+    let x = QueryId::Alias(h_ascii(&r.s, n));
+    let bytes = c20_sized(&x);
+    assert!(bytes.len() == 9 + n, "QueryId::Alias takes 1 + 8 + len bytes");
+    // `QueryId` keeps its discriminant in the String capacity niche; reading the
+    // text of a decoded alias whose length the solver sees as symbolic exhausts
+    // memory. The serialized bytes are therefore copied into a stack buffer whose
+    // structural bytes (variant tag, length prefix) are constants: they are
+    // *assumed* to be what `serialize` produced (a different layout makes the
+    // final cover unreachable = inconclusive, never a false alarm), the payload
+    // bytes stay the ones `serialize` wrote.
+    let mut arr = [0_u8; 12];
+    kani::assume(bytes[0] == 1 && bytes[1] == n as u8);
+    arr[0] = 1;
+    arr[1] = n as u8;
+    let mut k = 2;
+    while k < 9 {
+        kani::assume(bytes[k] == 0);
+        k += 1;
+    }
+    let mut k = 0;
+    while k < n {
+        arr[9 + k] = bytes[9 + k];
+        k += 1;
+    }
+    let y: QueryId = c20_back(&arr[..9 + n]);
+    let same = match &y {
+        QueryId::Alias(a) => h_same(a.as_bytes(), &r.s[..n]),
+        _ => false,
+    };
+    assert!(same, "QueryId::Alias round trip differs");
+    std::mem::forget((x, bytes, y));
+}
+
+fn c20_check_count_comparison(sel: usize, r: &C20Raw) {
+    let v = r.u[0];
+    let x = match sel {
+        0 => CountComparison::Equal(v),
+        1 => CountComparison::GreaterThan(v),
+        2 => CountComparison::GreaterThanOrEqual(v),
+        3 => CountComparison::LessThan(v),
+        4 => CountComparison::LessThanOrEqual(v),
+        _ => CountComparison::NotEqual(v),
+    };
+    let bytes = c20_sized(&x);
+    assert!(bytes.len() == 9, "CountComparison takes 9 bytes");
+    let y: CountComparison = c20_back(&bytes);
+    assert!(y == x, "CountComparison round trip differs");
+    std::mem::forget((x, bytes, y));
+}
+
+//@ id=C20 tier=quick timeout=500 bounds="QueryId::Id arbitrary, QueryId::Alias of 0,1,3 ASCII bytes; all 6 CountComparison variants with arbitrary u64" desc="QueryId and CountComparison round-trip; serialize().len()==serialized_size()==1+payload" kernel="QueryId::serialize,QueryId::deserialize,QueryId::serialized_size,CountComparison::serialize,CountComparison::deserialize,CountComparison::serialized_size,DbId::deserialize"
+#[kani::proof]
+#[kani::stub(std::fmt::format, crate::verif_support::fmt_stub)]
+#[kani::stub(crate::DbError::new, crate::verif_support::dberror_new_stub)]
+#[kani::stub(<crate::DbError as std::convert::From<std::string::FromUtf8Error>>::from, crate::verif_support::utf8err_stub)]
+#[kani::stub(std::string::String::from_utf8, from_utf8_accept)]
+#[kani::unwind(9)]
+fn c20_query_id_and_count_comparison() {
+    let r = c20_raw();
+    let sel: usize = kani::any();
+    kani::assume(sel <= 3);
+    c20_split!(sel, c20_check_query_id, &r, [0, 1, 2, 3]);
+    let cmp: usize = kani::any();
+    kani::assume(cmp <= 5);
+    c20_split!(cmp, c20_check_count_comparison, &r, [0, 1, 2, 3, 4, 5]);
+    kani::cover!(sel == 3 && cmp == 5, "3-byte alias and NotEqual explored");
+    kani::cover!(sel == 0 && r.i[0] < 0 && cmp == 0, "negative id and Equal explored");
+    kani::cover!(true, "end of harness reachable");
+}
+
+// --- Comparison, KeyValueComparison, DbKeyOrder ------------------------------
+
+fn c20_check_comparison(sel: usize, r: &C20Raw) {
+    // every variant once, each with a different kind of DbValue
+    let (x, vs) = match sel {
+        0 => (Comparison::Equal(c20_db_value(3, r)), 3),
+        1 => (Comparison::GreaterThan(c20_db_value(7, r)), 7),
+        2 => (Comparison::GreaterThanOrEqual(c20_db_value(1, r)), 1),
+        3 => (Comparison::LessThan(c20_db_value(5, r)), 5),
+        4 => (Comparison::LessThanOrEqual(c20_db_value(4, r)), 4),
+        5 => (Comparison::NotEqual(c20_db_value(10, r)), 10),
+        6 => (Comparison::Contains(c20_db_value(20, r)), 20),
+        7 => (Comparison::StartsWith(c20_db_value(7, r)), 7),
+        _ => (Comparison::EndsWith(c20_db_value(6, r)), 6),
+    };
+    let bytes = c20_sized(&x);
+    assert!(bytes.len() == 1 + c20_db_value_len(vs), "Comparison serialized length differs from 1 + value");
+    let y: Comparison = c20_back(&bytes);
+    assert!(y == x, "Comparison round trip differs");
+    std::mem::forget((x, bytes, y));
+}
+
+//@ id=C20 tier=quick timeout=500 bounds="Comparison::Equal(i64) GreaterThan(str2) GreaterThanOrEqual(bytes1) LessThan(f64) LessThanOrEqual(u64); contents arbitrary" desc="Comparison (first five variants) round-trips; serialize().len()==serialized_size()==1+size(value)" kernel="Comparison::serialize,Comparison::deserialize,Comparison::serialized_size,DbValue::deserialize"
+#[kani::proof]
+#[kani::stub(std::fmt::format, crate::verif_support::fmt_stub)]
+#[kani::stub(crate::DbError::new, crate::verif_support::dberror_new_stub)]
+#[kani::stub(<crate::DbError as std::convert::From<std::string::FromUtf8Error>>::from, crate::verif_support::utf8err_stub)]
+#[kani::stub(std::string::String::from_utf8, from_utf8_accept)]
+#[kani::unwind(5)]
+fn c20_comparison_ordering_variants() {
+    let r = c20_raw();
+    let sel: usize = kani::any();
+    kani::assume(sel <= 4);
+    c20_split!(sel, c20_check_comparison, &r, [0, 1, 2, 3, 4]);
+    kani::cover!(sel == 1, "GreaterThan(string) explored");
+    kani::cover!(sel == 4, "LessThanOrEqual(u64) explored");
+    kani::cover!(true, "end of harness reachable");
+}
+
+//@ id=C20 tier=quick timeout=500 bounds="Comparison::NotEqual([i64]) Contains([str3]) StartsWith(str2) EndsWith(str0); contents arbitrary" desc="Comparison (last four variants) round-trips; serialize().len()==serialized_size()==1+size(value)" kernel="Comparison::serialize,Comparison::deserialize,Comparison::serialized_size,DbValue::deserialize" args="--no-assertion-reach-checks" cbmc="--unwindset memcmp.0:18"
+#[kani::proof]
+#[kani::stub(std::fmt::format, crate::verif_support::fmt_stub)]
+#[kani::stub(crate::DbError::new, crate::verif_support::dberror_new_stub)]
+#[kani::stub(<crate::DbError as std::convert::From<std::string::FromUtf8Error>>::from, crate::verif_support::utf8err_stub)]
+#[kani::stub(std::string::String::from_utf8, from_utf8_accept)]
+#[kani::unwind(5)]
+fn c20_comparison_string_variants() {
+    let r = c20_raw();
+    let sel: usize = kani::any();
+    kani::assume(sel >= 5 && sel <= 8);
+    c20_split!(sel, c20_check_comparison, &r, [5, 6, 7, 8]);
+    kani::cover!(sel == 6, "Contains(string vector) explored");
+    kani::cover!(sel == 8, "EndsWith(empty string) explored");
+    kani::cover!(true, "end of harness reachable");
+}
+
+fn c20_check_order_and_kvc(sel: usize, r: &C20Raw) {
+    match sel {
+        0 | 1 | 2 => {
+            let (x, vs) = match sel {
+                0 => (DbKeyOrder::Asc(c20_db_value(7, r)), 7),
+                1 => (DbKeyOrder::Desc(c20_db_value(3, r)), 3),
+                _ => (DbKeyOrder::Desc(c20_db_value(1, r)), 1),
+            };
+            let bytes = c20_sized(&x);
+            assert!(bytes.len() == 1 + c20_db_value_len(vs), "DbKeyOrder serialized length differs from 1 + value");
+            let y: DbKeyOrder = c20_back(&bytes);
+            assert!(y == x, "DbKeyOrder round trip differs");
+            std::mem::forget((x, bytes, y));
+        }
+        _ => {
+            let (x, len) = match sel {
+                3 => (
+                    KeyValueComparison {
+                        key: c20_db_value(7, r),
+                        value: Comparison::Contains(c20_db_value(8, r)),
+                    },
+                    11 + 1 + 15,
+                ),
+                _ => (
+                    KeyValueComparison {
+                        key: c20_db_value(4, r),
+                        value: Comparison::NotEqual(c20_db_value(3, r)),
+                    },
+                    9 + 1 + 9,
+                ),
+            };
+            let bytes = c20_sized(&x);
+            assert!(bytes.len() == len, "KeyValueComparison serialized length differs from key + 1 + value");
+            let y: KeyValueComparison = c20_back(&bytes);
+            assert!(y == x, "KeyValueComparison round trip differs");
+            std::mem::forget((x, bytes, y));
+        }
+    }
+}
+
+//@ id=C20 tier=quick timeout=500 bounds="DbKeyOrder::Asc(str2) Desc(i64) Desc(bytes1); KeyValueComparison{str2, Contains(str6)} {u64, NotEqual(i64)}; contents arbitrary" desc="DbKeyOrder and KeyValueComparison round-trip; serialize().len()==serialized_size()" kernel="DbKeyOrder::serialize,DbKeyOrder::deserialize,DbKeyOrder::serialized_size,KeyValueComparison::serialize,KeyValueComparison::deserialize,KeyValueComparison::serialized_size"
+#[kani::proof]
+#[kani::stub(std::fmt::format, crate::verif_support::fmt_stub)]
+#[kani::stub(crate::DbError::new, crate::verif_support::dberror_new_stub)]
+#[kani::stub(<crate::DbError as std::convert::From<std::string::FromUtf8Error>>::from, crate::verif_support::utf8err_stub)]
+#[kani::stub(std::string::String::from_utf8, from_utf8_accept)]
+#[kani::unwind(8)]
+fn c20_key_order_and_key_value_comparison() {
+    let r = c20_raw();
+    let sel: usize = kani::any();
+    kani::assume(sel <= 4);
+    c20_split!(sel, c20_check_order_and_kvc, &r, [0, 1, 2, 3, 4]);
+    kani::cover!(sel == 0, "Asc(string) explored");
+    kani::cover!(sel == 3, "KeyValueComparison with strings explored");
+    kani::cover!(true, "end of harness reachable");
+}
+
+// --- QueryCondition (depth 1) ------------------------------------------------
+
+fn c20_logic(b: bool) -> QueryConditionLogic {
+    if b {
+        QueryConditionLogic::And
+    } else {
+        QueryConditionLogic::Or
+    }
+}
+
+fn c20_modifier(m: u8) -> QueryConditionModifier {
+    match m & 3 {
+        0 => QueryConditionModifier::None,
+        1 => QueryConditionModifier::Beyond,
+        2 => QueryConditionModifier::Not,
+        _ => QueryConditionModifier::NotBeyond,
+    }
+}
+
+fn c20_count_cmp(k: u8, v: u64) -> CountComparison {
+    match k % 6 {
+        0 => CountComparison::Equal(v),
+        1 => CountComparison::GreaterThan(v),
+        2 => CountComparison::GreaterThanOrEqual(v),
+        3 => CountComparison::LessThan(v),
+        4 => CountComparison::LessThanOrEqual(v),
+        _ => CountComparison::NotEqual(v),
+    }
+}
+
+/// `QueryConditionData` of concrete shape `sel`; returns it with its serialized length.
+fn c20_condition_data(sel: usize, r: &C20Raw, cc: u8) -> (QueryConditionData, usize) {
+    match sel {
+        0 => (QueryConditionData::Distance(c20_count_cmp(cc, r.u[0])), 10),
+        1 => (QueryConditionData::Edge, 1),
+        2 => (QueryConditionData::EdgeCount(c20_count_cmp(cc, r.u[1])), 10),
+        3 => (QueryConditionData::EdgeCountFrom(c20_count_cmp(cc, r.u[0])), 10),
+        4 => (QueryConditionData::EdgeCountTo(c20_count_cmp(cc, r.u[1])), 10),
+        5 => (QueryConditionData::Node, 1),
+        6 => (QueryConditionData::Ids(Vec::new()), 9),
+        7 => (
+            QueryConditionData::Ids(vec![QueryId::Id(DbId(r.i[0])), QueryId::Id(DbId(r.i[1]))]),
+            9 + 18,
+        ),
+        8 => (QueryConditionData::Keys(Vec::new()), 9),
+        9 => (
+            QueryConditionData::Keys(vec![c20_db_value(3, r), c20_db_value(7, r)]),
+            9 + 9 + 11,
+        ),
+        10 => (
+            QueryConditionData::KeyValue(KeyValueComparison {
+                key: c20_db_value(7, r),
+                value: Comparison::GreaterThan(c20_db_value(4, r)),
+            }),
+            1 + 11 + 1 + 9,
+        ),
+        11 => (QueryConditionData::Where(Vec::new()), 9),
+        12 => (
+            QueryConditionData::Where(vec![QueryCondition {
+                logic: QueryConditionLogic::Or,
+                modifier: QueryConditionModifier::Not,
+                data: QueryConditionData::Node,
+            }]),
+            9 + 3,
+        ),
+        _ => (
+            QueryConditionData::Where(vec![
+                QueryCondition {
+                    logic: QueryConditionLogic::And,
+                    modifier: QueryConditionModifier::Beyond,
+                    data: QueryConditionData::Distance(c20_count_cmp(cc, r.u[1])),
+                },
+                QueryCondition {
+                    logic: QueryConditionLogic::Or,
+                    modifier: QueryConditionModifier::None,
+                    data: QueryConditionData::Edge,
+                },
+            ]),
+            9 + 12 + 3,
+        ),
+    }
+}
+
+/// Copies serialized `$bytes` into the stack array `$arr`, writing the *structural*
+/// bytes (variant tags `t N`, length prefixes) as literals and the payload bytes
+/// (`b`) as produced by `serialize`.
+///
+/// Why: the decoder reads tags and lengths back from a heap buffer, which the
+/// solver treats as symbolic even when they are constants, so every variant of
+/// every nested enum (and the recursion through `Where`) is explored. With the
+/// structural bytes as literals in a stack array that is pruned. The structural
+/// bytes are *assumed* (not asserted) to be what `serialize` wrote: with a
+/// different layout the harness's final cover becomes unreachable (inconclusive),
+/// it cannot raise a false alarm; payload bytes are always the real ones.
+macro_rules! c20_lay {
+    ($arr:ident, $bytes:ident, $p:ident;) => {};
+    ($arr:ident, $bytes:ident, $p:ident; t $v:literal, $($rest:tt)*) => {
+        kani::assume($bytes[$p] == $v);
+        $arr[$p] = $v;
+        $p += 1;
+        c20_lay!($arr, $bytes, $p; $($rest)*);
+    };
+    ($arr:ident, $bytes:ident, $p:ident; b, $($rest:tt)*) => {
+        $arr[$p] = $bytes[$p];
+        $p += 1;
+        c20_lay!($arr, $bytes, $p; $($rest)*);
+    };
+}
+
+/// Round trip of `QueryConditionData` of shape `sel` (0..=10, i.e. all variants but
+/// `Where`; CountComparison variant = shape % 6). The layout literals are written
+/// in this function because an array returned from a helper reaches the decoder
+/// as an opaque copy and nothing is pruned.
+fn c20_check_condition_data(sel: usize, r: &C20Raw) {
+    let (x, len) = c20_condition_data(sel, r, (sel % 6) as u8);
+    let bytes = c20_sized(&x);
+    assert!(bytes.len() == len, "QueryConditionData serialized length differs from 1 + payload");
+    let mut arr = [0_u8; 32];
+    let mut p = 0_usize;
+    match sel {
+        0 => {
+            c20_lay!(arr, bytes, p; t 0, t 0, b, b, b, b, b, b, b, b,);
+        }
+        1 => {
+            c20_lay!(arr, bytes, p; t 1,);
+        }
+        2 => {
+            c20_lay!(arr, bytes, p; t 2, t 2, b, b, b, b, b, b, b, b,);
+        }
+        3 => {
+            c20_lay!(arr, bytes, p; t 3, t 3, b, b, b, b, b, b, b, b,);
+        }
+        4 => {
+            c20_lay!(arr, bytes, p; t 4, t 4, b, b, b, b, b, b, b, b,);
+        }
+        5 => {
+            c20_lay!(arr, bytes, p; t 8,);
+        }
+        6 => {
+            c20_lay!(arr, bytes, p; t 5, t 0, t 0, t 0, t 0, t 0, t 0, t 0, t 0,);
+        }
+        7 => {
+            c20_lay!(arr, bytes, p; t 5, t 2, t 0, t 0, t 0, t 0, t 0, t 0, t 0, t 0, b, b, b, b, b, b, b, b, t 0, b, b, b, b, b, b, b, b,);
+        }
+        8 => {
+            c20_lay!(arr, bytes, p; t 7, t 0, t 0, t 0, t 0, t 0, t 0, t 0, t 0,);
+        }
+        9 => {
+            c20_lay!(arr, bytes, p; t 7, t 2, t 0, t 0, t 0, t 0, t 0, t 0, t 0, t 1, b, b, b, b, b, b, b, b, t 4, t 2, t 0, t 0, t 0, t 0, t 0, t 0, t 0, b, b,);
+        }
+        _ => {
+            c20_lay!(arr, bytes, p; t 6, t 4, t 2, t 0, t 0, t 0, t 0, t 0, t 0, t 0, b, b, t 1, t 2, b, b, b, b, b, b, b, b,);
+        }
+    }
+    assert!(p == bytes.len(), "serialized length differs from the layout length");
+    let y: QueryConditionData = c20_back(&arr[..len]);
+    if sel == 7 {
+        // ids compared by hand: `==` on the niche-encoded QueryId also walks the
+        // (unreachable) alias arm and exhausts the solver's memory
+        let same = match &y {
+            QueryConditionData::Ids(v) => {
+                v.len() == 2
+                    && matches!(&v[0], QueryId::Id(DbId(a)) if *a == r.i[0])
+                    && matches!(&v[1], QueryId::Id(DbId(b)) if *b == r.i[1])
+            }
+            _ => false,
+        };
+        assert!(same, "QueryConditionData::Ids round trip differs");
+    } else {
+        assert!(y == x, "QueryConditionData round trip differs");
+    }
+    std::mem::forget((x, bytes, y));
+}
+
+//@ id=C20 tier=quick timeout=400 bounds="QueryConditionData Distance/Edge/EdgeCount/EdgeCountFrom/EdgeCountTo/Node with arbitrary u64 (CountComparison variant fixed per shape)" desc="QueryConditionData (count and marker variants) round-trips; serialize().len()==serialized_size()==1+payload" kernel="QueryConditionData::serialize,QueryConditionData::deserialize,QueryConditionData::serialized_size,CountComparison::deserialize" args="--no-assertion-reach-checks"
+#[kani::proof]
+#[kani::stub(std::fmt::format, crate::verif_support::fmt_stub)]
+#[kani::stub(crate::DbError::new, crate::verif_support::dberror_new_stub)]
+#[kani::unwind(3)]
+fn c20_condition_data_counts() {
+    let r = c20_raw();
+    let sel: usize = kani::any();
+    kani::assume(sel <= 5);
+    c20_split!(sel, c20_check_condition_data, &r, [0, 1, 2, 3, 4, 5]);
+    kani::cover!(sel == 0, "Distance explored");
+    kani::cover!(sel == 5, "Node explored");
+    kani::cover!(true, "end of harness reachable");
+}
+
+//@ id=C20 tier=quick timeout=600 bounds="QueryConditionData Ids([]), Keys([]), Keys([i64,str2]); contents arbitrary" desc="QueryConditionData (id and key variants) round-trips; serialize().len()==serialized_size()==1+payload" kernel="QueryConditionData::serialize,QueryConditionData::deserialize,QueryConditionData::serialized_size,Vec<T>::deserialize,QueryId::deserialize,DbValue::deserialize,DbValue::deserialize" args="--no-assertion-reach-checks" cbmc="--unwindset memcmp.0:10"
+#[kani::proof]
+#[kani::stub(std::fmt::format, crate::verif_support::fmt_stub)]
+#[kani::stub(crate::DbError::new, crate::verif_support::dberror_new_stub)]
+#[kani::stub(<crate::DbError as std::convert::From<std::string::FromUtf8Error>>::from, crate::verif_support::utf8err_stub)]
+#[kani::stub(std::string::String::from_utf8, from_utf8_accept)]
+#[kani::unwind(3)]
+fn c20_condition_data_ids_keys() {
+    let r = c20_raw();
+    let sel: usize = kani::any();
+    kani::assume(sel == 6 || sel == 8 || sel == 9);
+    c20_split!(sel, c20_check_condition_data, &r, [6, 8, 9]);
+    kani::cover!(sel == 6, "empty ids explored");
+    kani::cover!(sel == 9, "two keys explored");
+    kani::cover!(true, "end of harness reachable");
+}
+
+// ---------------------------------------------------------------------------
+// C20: user types with #[derive(DbSerialize)]
+// ---------------------------------------------------------------------------
+
+#[derive(agdb::DbSerialize)]
+struct C20Named {
+    id: u64,
+    name: String,
+    delta: i64,
+    ratio: f64,
+    flag: bool,
+}
+
+#[derive(agdb::DbSerialize)]
+struct C20Tuple(i64, String, u64);
+
+#[derive(agdb::DbSerialize, PartialEq)]
+struct C20Unit;
+
+/// `repr(u8)` on purpose: without it rustc stores the discriminant in the String
+/// capacity niche (as for QueryId), which the solver cannot handle at acceptable cost.
+#[derive(agdb::DbSerialize, PartialEq)]
+#[repr(u8)]
+enum C20Enum {
+    Unit,
+    Tuple(u64, String),
+    Struct { x: i64, on: bool, y: u64 },
+    Last,
+}
+
+#[derive(agdb::DbSerialize)]
+struct C20Nested {
+    pre: bool,
+    named: C20Named,
+    unit: C20Unit,
+    choice: C20Enum,
+    pair: C20Tuple,
+    post: u64,
+}
+
+#[derive(agdb::DbSerialize)]
+struct C20Generic<T: crate::AgdbSerialize> {
+    first: T,
+    second: u64,
+}
+
+fn c20_named(r: &C20Raw, len: usize) -> C20Named {
+    C20Named {
+        id: r.u[0],
+        name: h_ascii(&r.a[0], len),
+        delta: r.i[0],
+        ratio: r.f[0],
+        flag: r.i[1] < 0,
+    }
+}
+
+fn c20_same_named(a: &C20Named, b: &C20Named) -> bool {
+    a.id == b.id
+        && h_same(a.name.as_bytes(), b.name.as_bytes())
+        && a.delta == b.delta
+        && a.ratio.to_bits() == b.ratio.to_bits()
+        && a.flag == b.flag
+}
+
+fn c20_same_tuple(a: &C20Tuple, b: &C20Tuple) -> bool {
+    a.0 == b.0 && h_same(a.1.as_bytes(), b.1.as_bytes()) && a.2 == b.2
+}
+
+fn c20_same_enum(a: &C20Enum, b: &C20Enum) -> bool {
+    match (a, b) {
+        (C20Enum::Unit, C20Enum::Unit) => true,
+        (C20Enum::Last, C20Enum::Last) => true,
+        (C20Enum::Tuple(a0, a1), C20Enum::Tuple(b0, b1)) => a0 == b0 && h_same(a1.as_bytes(), b1.as_bytes()),
+        (C20Enum::Struct { x: ax, on: ao, y: ay }, C20Enum::Struct { x: bx, on: bo, y: by }) => {
+            ax == bx && ao == bo && ay == by
+        }
+        _ => false,
+    }
+}
+
+fn c20_enum(sel: usize, r: &C20Raw) -> (C20Enum, usize) {
+    match sel {
+        0 => (C20Enum::Unit, 1),
+        1 => (C20Enum::Tuple(r.u[1], h_ascii(&r.a[1], 0)), 1 + 8 + 8),
+        2 => (C20Enum::Tuple(r.u[1], h_ascii(&r.a[1], 3)), 1 + 8 + 11),
+        3 => (
+            C20Enum::Struct {
+                x: r.i[1],
+                on: r.u[0] > 7,
+                y: r.u[1],
+            },
+            1 + 8 + 1 + 8,
+        ),
+        _ => (C20Enum::Last, 1),
+    }
+}
+
+fn c20_check_user_struct(sel: usize, r: &C20Raw) {
+    match sel {
+        0 | 1 | 2 => {
+            let len = if sel == 0 { 0 } else if sel == 1 { 1 } else { 3 };
+            let x = c20_named(r, len);
+            let bytes = c20_sized(&x);
+            assert!(bytes.len() == 8 + 8 + len + 8 + 8 + 1, "named struct takes the sum of its fields");
+            let y: C20Named = c20_back(&bytes);
+            assert!(c20_same_named(&x, &y), "named struct round trip differs");
+            std::mem::forget((x, bytes, y));
+        }
+        3 | 4 => {
+            let len = if sel == 3 { 0 } else { 2 };
+            let x = C20Tuple(r.i[0], h_ascii(&r.a[0], len), r.u[0]);
+            let bytes = c20_sized(&x);
+            assert!(bytes.len() == 8 + 8 + len + 8, "tuple struct takes the sum of its fields");
+            let y: C20Tuple = c20_back(&bytes);
+            assert!(c20_same_tuple(&x, &y), "tuple struct round trip differs");
+            std::mem::forget((x, bytes, y));
+        }
+        _ => {
+            let x = C20Unit;
+            let bytes = c20_sized(&x);
+            assert!(bytes.is_empty(), "unit struct takes no bytes");
+            let y: C20Unit = c20_back(&bytes);
+            assert!(y == x, "unit struct round trip differs");
+            std::mem::forget(bytes);
+        }
+    }
+}
+
+//@ id=C20 tier=quick timeout=400 bounds="derive(DbSerialize) named struct {u64,String(0,1,3 ASCII),i64,f64,bool}, tuple struct (i64,String(0,2),u64), unit struct; field values arbitrary" desc="derived named/tuple/unit structs round-trip field by field (f64 by bits); serialize().len()==serialized_size()==sum of fields" kernel="agdb_derive::db_serialize::serialize_struct,agdb_derive::db_serialize::serialize_tuple" args="--no-assertion-reach-checks"
+#[kani::proof]
+#[kani::stub(std::fmt::format, crate::verif_support::fmt_stub)]
+#[kani::stub(crate::DbError::new, crate::verif_support::dberror_new_stub)]
+#[kani::stub(<crate::DbError as std::convert::From<std::string::FromUtf8Error>>::from, crate::verif_support::utf8err_stub)]
+#[kani::stub(std::string::String::from_utf8, from_utf8_accept)]
+#[kani::unwind(5)]
+fn c20_derive_structs() {
+    let r = c20_raw();
+    let sel: usize = kani::any();
+    kani::assume(sel <= 5);
+    c20_split!(sel, c20_check_user_struct, &r, [0, 1, 2, 3, 4, 5]);
+    kani::cover!(sel == 2 && r.f[0].is_nan(), "named struct with 3-byte name and NaN explored");
+    kani::cover!(sel == 4, "tuple struct explored");
+    kani::cover!(sel == 5, "unit struct explored");
+    kani::cover!(true, "end of harness reachable");
+}
+
+fn c20_check_user_enum(sel: usize, r: &C20Raw) {
+    let (x, len) = c20_enum(sel, r);
+    let bytes = c20_sized(&x);
+    assert!(bytes.len() == len, "derived enum takes 1 + the fields of the variant");
+    let y: C20Enum = c20_back(&bytes);
+    assert!(c20_same_enum(&x, &y), "derived enum round trip differs");
+    std::mem::forget((x, bytes, y));
+}
+
+//@ id=C20 tier=quick timeout=300 bounds="derive(DbSerialize) enum {Unit, Tuple(u64,String(0,3)), Struct{i64,bool,u64}, Last}; field values arbitrary" desc="derived enum with unit/tuple/struct variants round-trips; serialize().len()==serialized_size()==1+fields" kernel="agdb_derive::db_serialize::serialize_enum" args="--no-assertion-reach-checks"
+#[kani::proof]
+#[kani::stub(std::fmt::format, crate::verif_support::fmt_stub)]
+#[kani::stub(crate::DbError::new, crate::verif_support::dberror_new_stub)]
+#[kani::stub(<crate::DbError as std::convert::From<std::string::FromUtf8Error>>::from, crate::verif_support::utf8err_stub)]
+#[kani::stub(std::string::String::from_utf8, from_utf8_accept)]
+#[kani::unwind(5)]
+fn c20_derive_enum() {
+    let r = c20_raw();
+    let sel: usize = kani::any();
+    kani::assume(sel <= 4);
+    c20_split!(sel, c20_check_user_enum, &r, [0, 1, 2, 3, 4]);
+    kani::cover!(sel == 2, "tuple variant explored");
+    kani::cover!(sel == 3, "struct variant explored");
+    kani::cover!(sel == 4, "last unit variant explored");
+    kani::cover!(true, "end of harness reachable");
+}
+
+fn c20_check_user_nested(sel: usize, r: &C20Raw) {
+    match sel {
+        0 | 1 => {
+            let (choice, elen) = c20_enum(if sel == 0 { 3 } else { 0 }, r);
+            let nlen = if sel == 0 { 1 } else { 3 };
+            let x = C20Nested {
+                pre: r.u[1] > 3,
+                named: c20_named(r, nlen),
+                unit: C20Unit,
+                choice,
+                pair: C20Tuple(r.i[1], h_ascii(&r.a[1], 1), r.u[1]),
+                post: r.u[0],
+            };
+            let bytes = c20_sized(&x);
+            assert!(
+                bytes.len() == 1 + (33 + nlen) + 0 + elen + 25 + 8,
+                "nested struct takes the sum of its fields"
+            );
+            let y: C20Nested = c20_back(&bytes);
+            assert!(y.pre == x.pre, "nested: first field differs");
+            assert!(c20_same_named(&x.named, &y.named), "nested: struct field differs");
+            assert!(c20_same_enum(&x.choice, &y.choice), "nested: enum field differs");
+            assert!(c20_same_tuple(&x.pair, &y.pair), "nested: tuple field differs");
+            assert!(y.post == x.post, "nested: last field differs");
+            std::mem::forget((x, bytes, y));
+        }
+        2 => {
+            let x = C20Generic { first: h_ascii(&r.a[0], 2), second: r.u[0] };
+            let bytes = c20_sized(&x);
+            assert!(bytes.len() == 10 + 8, "generic struct<String> takes the sum of its fields");
+            let y: C20Generic<String> = c20_back(&bytes);
+            assert!(h_same(y.first.as_bytes(), &r.a[0][..2]) && y.second == x.second, "generic<String> differs");
+            std::mem::forget((x, bytes, y));
+        }
+        3 => {
+            let x = C20Generic { first: h_vec(&r.i, 2), second: r.u[0] };
+            let bytes = c20_sized(&x);
+            assert!(bytes.len() == 24 + 8, "generic struct<Vec<i64>> takes the sum of its fields");
+            let y: C20Generic<Vec<i64>> = c20_back(&bytes);
+            assert!(
+                y.first.len() == 2 && y.first[0] == r.i[0] && y.first[1] == r.i[1] && y.second == x.second,
+                "generic<Vec<i64>> differs"
+            );
+            std::mem::forget((x, bytes, y));
+        }
+        _ => {
+            let (first, elen) = c20_enum(2, r);
+            let x = C20Generic { first, second: r.u[0] };
+            let bytes = c20_sized(&x);
+            assert!(bytes.len() == elen + 8, "generic struct<enum> takes the sum of its fields");
+            let y: C20Generic<C20Enum> = c20_back(&bytes);
+            assert!(c20_same_enum(&x.first, &y.first) && y.second == x.second, "generic<enum> differs");
+            std::mem::forget((x, bytes, y));
+        }
+    }
+}
+
+//@ id=C20 tier=quick timeout=2100 bounds="nested struct {bool, named struct, unit struct, enum (struct variant / unit variant), tuple struct, u64}; generic struct<T>{T,u64} with T=String(2), Vec<i64>(2), derived enum; field values arbitrary" desc="nested and generic derived types round-trip field by field; serialize().len()==serialized_size()==sum of fields" kernel="agdb_derive::db_serialize::serialize_struct,agdb_derive::db_serialize::serialize_tuple,agdb_derive::db_serialize::serialize_enum" args="--no-assertion-reach-checks"
+#[kani::proof]
+#[kani::stub(std::fmt::format, crate::verif_support::fmt_stub)]
+#[kani::stub(crate::DbError::new, crate::verif_support::dberror_new_stub)]
+#[kani::stub(<crate::DbError as std::convert::From<std::string::FromUtf8Error>>::from, crate::verif_support::utf8err_stub)]
+#[kani::stub(std::string::String::from_utf8, from_utf8_accept)]
+#[kani::unwind(5)]
+fn c20_derive_nested_generic() {
+    let r = c20_raw();
+    let sel: usize = kani::any();
+    kani::assume(sel <= 4);
+    c20_split!(sel, c20_check_user_nested, &r, [0, 1, 2, 3, 4]);
+    kani::cover!(sel == 0, "nested with struct variant explored");
+    kani::cover!(sel == 3, "generic over Vec<i64> explored");
+    kani::cover!(sel == 4, "generic over enum explored");
+    kani::cover!(true, "end of harness reachable");
+}
+
+// ---------------------------------------------------------------------------
+// C21: arbitrary bytes
+// ---------------------------------------------------------------------------
+
+/// C21 oracle: any outcome but a panic. Returns whether it was `Ok`. When the
+/// value decodes, it cannot claim to occupy more bytes than were supplied.
+fn c21_feed<T: Serialize>(bytes: &[u8]) -> bool {
+    let r = T::deserialize(bytes);
+    let is_ok = match &r {
+        Ok(v) => {
+            assert!(
+                v.serialized_size() <= bytes.len() as u64,
+                "decoded value is larger than the input"
+            );
+            true
+        }
+        Err(_) => false,
+    };
+    std::mem::forget(r);
+    is_ok
+}
+
+#[allow(dead_code)]
+struct FakeFromUtf8Error {
+    bytes: Vec<u8>,
+    error: std::str::Utf8Error,
+}
+
+/// Model of `String::from_utf8` for the arbitrary-bytes harnesses: validity is
+/// decided nondeterministically (over-approximation: both outcomes are explored
+/// for every payload). The real validator over a heap buffer of symbolic length
+/// exhausts 10 GB; it is exercised on concrete-length inputs by
+/// `c21_string_real_utf8`. The error value is only ever passed to the (stubbed)
+/// conversion into `DbError`, which forgets it.
+pub(crate) fn from_utf8_any(v: Vec<u8>) -> Result<String, std::string::FromUtf8Error> {
+    if kani::any() {
+        Ok(unsafe { String::from_utf8_unchecked(v) })
+    } else {
+        let error = match std::str::from_utf8(&[0xff_u8]) {
+            Err(e) => e,
+            Ok(_) => unreachable!(),
+        };
+        Err(unsafe {
+            std::mem::transmute::<FakeFromUtf8Error, std::string::FromUtf8Error>(FakeFromUtf8Error {
+                bytes: v,
+                error,
+            })
+        })
+    }
+}
+
+/// Largest length prefix explored by the harnesses that are expected to pass on
+/// the current tree. Larger prefixes trigger the known defects C21-a
+/// (`Vec::with_capacity(len)`) and C21-c (`begin + len` overflow), which have
+/// their own harnesses (`c21_vec_u64_capacity`, `c21_string_prefix_overflow`,
+/// `c21_bytes_prefix_overflow`).
+const C21_MAX_PREFIX: u64 = u32::MAX as u64;
+
+/// Replaces `<usize as Serialize>::deserialize` (every length prefix is read
+/// through it): same decoding, plus the precondition `prefix <= C21_MAX_PREFIX`.
+/// The real function is checked by `c21_scalars`.
+pub(crate) fn usize_deserialize_bounded(bytes: &[u8]) -> Result<usize, DbError> {
+    let value = u64::deserialize(bytes)?;
+    kani::assume(value <= C21_MAX_PREFIX);
+    Ok(value as usize)
+}
+
+//@ id=C21 tier=quick timeout=300 bounds="buffer of 0..=24 arbitrary bytes" desc="fixed-size built-ins: deserialize never panics and is Ok exactly when enough bytes are present" kernel="i64::deserialize,u64::deserialize,f64::deserialize,usize::deserialize,bool::deserialize,DbF64::deserialize,DbId::deserialize"
+#[kani::proof]
+#[kani::stub(std::fmt::format, crate::verif_support::fmt_stub)]
+#[kani::stub(crate::DbError::new, crate::verif_support::dberror_new_stub)]
+#[kani::stub(<crate::DbError as std::convert::From<std::array::TryFromSliceError>>::from, crate::verif_support::sliceerr_stub)]
+#[kani::stub(<crate::DbError as std::convert::From<std::num::TryFromIntError>>::from, crate::verif_support::interr_stub)]
+#[kani::unwind(10)]
+fn c21_scalars() {
+    let buf: [u8; 24] = kani::any();
+    let n: usize = kani::any();
+    kani::assume(n <= 24);
+    let b = &buf[..n];
+    assert!(c21_feed::<i64>(b) == (n >= 8), "i64: Ok iff 8 bytes");
+    assert!(c21_feed::<u64>(b) == (n >= 8), "u64: Ok iff 8 bytes");
+    assert!(c21_feed::<f64>(b) == (n >= 8), "f64: Ok iff 8 bytes");
+    assert!(c21_feed::<usize>(b) == (n >= 8), "usize: Ok iff 8 bytes (64-bit target)");
+    assert!(c21_feed::<bool>(b) == (n >= 1), "bool: Ok iff 1 byte");
+    assert!(c21_feed::<DbF64>(b) == (n >= 8), "DbF64: Ok iff 8 bytes");
+    assert!(c21_feed::<DbId>(b) == (n >= 8), "DbId: Ok iff 8 bytes");
+    kani::cover!(n == 7, "one byte short explored");
+    kani::cover!(n == 0, "empty input explored");
+    kani::cover!(n == 24, "full buffer explored");
+    kani::cover!(true, "end of harness reachable");
+}
+
+// --- the three known defects, one harness each (expected to FAIL on the unchanged tree)
+
+//@ id=C21 tier=quick timeout=400 bounds="buffer of 0..=24 arbitrary bytes (UTF-8 validity nondeterministic)" desc="String::deserialize returns Ok or Err for every input, no panic, no arithmetic overflow [known defect C21-c: begin + len overflows for a length prefix >= 2^64-8]" kernel="String::deserialize"
+#[kani::proof]
+#[kani::stub(std::fmt::format, crate::verif_support::fmt_stub)]
+#[kani::stub(crate::DbError::new, crate::verif_support::dberror_new_stub)]
+#[kani::stub(<crate::DbError as std::convert::From<std::array::TryFromSliceError>>::from, crate::verif_support::sliceerr_stub)]
+#[kani::stub(<crate::DbError as std::convert::From<std::num::TryFromIntError>>::from, crate::verif_support::interr_stub)]
+#[kani::stub(<crate::DbError as std::convert::From<std::string::FromUtf8Error>>::from, crate::verif_support::utf8err_stub)]
+#[kani::stub(std::string::String::from_utf8, from_utf8_any)]
+#[kani::unwind(5)]
+fn c21_string_prefix_overflow() {
+    let buf: [u8; 24] = kani::any();
+    let n: usize = kani::any();
+    kani::assume(n <= 24);
+    let ok = c21_feed::<String>(&buf[..n]);
+    kani::cover!(ok && n == 24 && buf[0] == 16, "a 16-byte string decodes");
+    kani::cover!(!ok && n >= 8, "rejected with a length prefix present");
+    kani::cover!(true, "end of harness reachable");
+}
+
+//@ id=C21 tier=quick timeout=300 bounds="buffer of 0..=24 arbitrary bytes" desc="Vec<u8>::deserialize returns Ok or Err for every input, no panic, no arithmetic overflow [known defect C21-c: begin + len overflows for a length prefix >= 2^64-8]" kernel="Vec<u8>::deserialize"
+#[kani::proof]
+#[kani::stub(std::fmt::format, crate::verif_support::fmt_stub)]
+#[kani::stub(crate::DbError::new, crate::verif_support::dberror_new_stub)]
+#[kani::stub(<crate::DbError as std::convert::From<std::array::TryFromSliceError>>::from, crate::verif_support::sliceerr_stub)]
+#[kani::stub(<crate::DbError as std::convert::From<std::num::TryFromIntError>>::from, crate::verif_support::interr_stub)]
+#[kani::unwind(5)]
+fn c21_bytes_prefix_overflow() {
+    let buf: [u8; 24] = kani::any();
+    let n: usize = kani::any();
+    kani::assume(n <= 24);
+    let ok = c21_feed::<Vec<u8>>(&buf[..n]);
+    kani::cover!(ok && n == 24 && buf[0] == 16, "a 16-byte vector decodes");
+    kani::cover!(!ok && n >= 8, "rejected with a length prefix present");
+    kani::cover!(true, "end of harness reachable");
+}
+
+//@ id=C21 tier=quick timeout=300 bounds="buffer of 0..=24 arbitrary bytes" desc="SystemTime::deserialize returns Ok or Err for every input, no panic [known defect C21-b: Duration::new(secs, nanos) panics when the nanosecond carry overflows secs]" kernel="SystemTime::deserialize"
+#[kani::proof]
+#[kani::stub(std::fmt::format, crate::verif_support::fmt_stub)]
+#[kani::stub(crate::DbError::new, crate::verif_support::dberror_new_stub)]
+#[kani::unwind(5)]
+fn c21_system_time_duration() {
+    let buf: [u8; 24] = kani::any();
+    let n: usize = kani::any();
+    kani::assume(n <= 24);
+    let ok = c21_feed::<SystemTime>(&buf[..n]);
+    assert!(!ok || n >= 13, "SystemTime needs 13 bytes");
+    kani::cover!(ok, "some input decodes");
+    kani::cover!(!ok && n >= 13, "out-of-range time rejected");
+    kani::cover!(true, "end of harness reachable");
+}
+
+//@ id=C21 tier=quick timeout=300 bounds="buffer of 0..=24 arbitrary bytes" desc="Vec<u64>::deserialize returns Ok or Err for every input, no panic, no capacity overflow [known defect C21-a: Vec::with_capacity(len) with len taken from the input]" kernel="Vec<T>::deserialize"
+#[kani::proof]
+#[kani::stub(std::fmt::format, crate::verif_support::fmt_stub)]
+#[kani::stub(crate::DbError::new, crate::verif_support::dberror_new_stub)]
+#[kani::stub(<crate::DbError as std::convert::From<std::array::TryFromSliceError>>::from, crate::verif_support::sliceerr_stub)]
+#[kani::stub(<crate::DbError as std::convert::From<std::num::TryFromIntError>>::from, crate::verif_support::interr_stub)]
+#[kani::unwind(5)]
+fn c21_vec_u64_capacity() {
+    let buf: [u8; 24] = kani::any();
+    let n: usize = kani::any();
+    kani::assume(n <= 24);
+    let ok = c21_feed::<Vec<u64>>(&buf[..n]);
+    kani::cover!(ok && n == 24 && buf[0] == 2, "a 2-element vector decodes");
+    kani::cover!(!ok && n >= 8, "rejected with a length prefix present");
+    kani::cover!(true, "end of harness reachable");
+}
+
+// --- the same decoders outside the defect triggers (expected to PASS)
+
+//@ id=C21 tier=quick timeout=300 bounds="buffer of 0..=24 arbitrary bytes; length prefix <= 2^32-1 (larger: known defect C21-c); UTF-8 validity nondeterministic" desc="String / Vec<u8> deserialize never panic; Ok implies prefix + 8 <= input length" kernel="String::deserialize,Vec<u8>::deserialize"
+#[kani::proof]
+#[kani::stub(std::fmt::format, crate::verif_support::fmt_stub)]
+#[kani::stub(crate::DbError::new, crate::verif_support::dberror_new_stub)]
+#[kani::stub(<crate::DbError as std::convert::From<std::array::TryFromSliceError>>::from, crate::verif_support::sliceerr_stub)]
+#[kani::stub(<crate::DbError as std::convert::From<std::num::TryFromIntError>>::from, crate::verif_support::interr_stub)]
+#[kani::stub(<crate::DbError as std::convert::From<std::string::FromUtf8Error>>::from, crate::verif_support::utf8err_stub)]
+#[kani::stub(std::string::String::from_utf8, from_utf8_any)]
+#[kani::stub(<usize as crate::utilities::serialize::Serialize>::deserialize, usize_deserialize_bounded)]
+#[kani::unwind(5)]
+fn c21_string_and_bytes_bounded() {
+    let buf: [u8; 24] = kani::any();
+    let n: usize = kani::any();
+    kani::assume(n <= 24);
+    let ok_s = c21_feed::<String>(&buf[..n]);
+    let ok_b = c21_feed::<Vec<u8>>(&buf[..n]);
+    let fits = n >= 8 && buf[1] == 0 && buf[2] == 0 && buf[3] == 0 && (buf[0] as usize) <= n - 8
+        && buf[4] == 0 && buf[5] == 0 && buf[6] == 0 && buf[7] == 0;
+    assert!(ok_b == fits, "Vec<u8>: Ok iff the prefixed payload fits in the input");
+    assert!(!ok_s || fits, "String: Ok only if the prefixed payload fits in the input");
+    kani::cover!(ok_s && n == 24 && buf[0] == 16, "a 16-byte string decodes");
+    kani::cover!(!ok_s && ok_b, "invalid UTF-8 rejected");
+    kani::cover!(!ok_b && n >= 8, "payload longer than the input rejected");
+    kani::cover!(true, "end of harness reachable");
+}
+
+//@ id=C21 tier=quick timeout=300 bounds="buffer of 0..=24 arbitrary bytes with nanoseconds field < 10^9 (larger: known defect C21-b)" desc="SystemTime::deserialize never panics for normalized nanoseconds; Ok only with 13 bytes" kernel="SystemTime::deserialize"
+#[kani::proof]
+#[kani::stub(std::fmt::format, crate::verif_support::fmt_stub)]
+#[kani::stub(crate::DbError::new, crate::verif_support::dberror_new_stub)]
+#[kani::unwind(5)]
+fn c21_system_time_normalized() {
+    let buf: [u8; 24] = kani::any();
+    let n: usize = kani::any();
+    kani::assume(n <= 24);
+    let nanos = u32::from_le_bytes([buf[8], buf[9], buf[10], buf[11]]);
+    kani::assume(nanos < 1_000_000_000);
+    let ok = c21_feed::<SystemTime>(&buf[..n]);
+    assert!(!ok || n >= 13, "SystemTime needs 13 bytes");
+    kani::cover!(ok && buf[12] == 0, "a time before the epoch decodes");
+    kani::cover!(ok && buf[12] != 0, "a time after the epoch decodes");
+    kani::cover!(!ok && n >= 13, "out-of-range time rejected");
+    kani::cover!(true, "end of harness reachable");
+}
+
+//@ id=C21 tier=quick timeout=600 bounds="buffer of 0..=24 arbitrary bytes; length prefix <= 2^32-1 (larger: known defect C21-a)" desc="Vec<i64>/Vec<u64>/Vec<DbF64> deserialize never panic; Ok implies 8 + 8*len <= input length" kernel="Vec<T>::deserialize" args="--no-assertion-reach-checks"
+#[kani::proof]
+#[kani::stub(std::fmt::format, crate::verif_support::fmt_stub)]
+#[kani::stub(crate::DbError::new, crate::verif_support::dberror_new_stub)]
+#[kani::stub(<crate::DbError as std::convert::From<std::array::TryFromSliceError>>::from, crate::verif_support::sliceerr_stub)]
+#[kani::stub(<crate::DbError as std::convert::From<std::num::TryFromIntError>>::from, crate::verif_support::interr_stub)]
+#[kani::stub(<usize as crate::utilities::serialize::Serialize>::deserialize, usize_deserialize_bounded)]
+#[kani::unwind(5)]
+fn c21_vec_fixed_elems_bounded() {
+    let buf: [u8; 24] = kani::any();
+    let n: usize = kani::any();
+    kani::assume(n <= 24);
+    let ok_i = c21_feed::<Vec<i64>>(&buf[..n]);
+    let ok_u = c21_feed::<Vec<u64>>(&buf[..n]);
+    let ok_f = c21_feed::<Vec<DbF64>>(&buf[..n]);
+    assert!(ok_i == ok_u && ok_u == ok_f, "all 8-byte element vectors accept the same inputs");
+    kani::cover!(ok_i && n == 24 && buf[0] == 2, "a 2-element vector decodes");
+    kani::cover!(ok_i && buf[0] == 0, "an empty vector decodes");
+    kani::cover!(!ok_i && n >= 8, "rejected with a length prefix present");
+    kani::cover!(true, "end of harness reachable");
+}
+
+//@ id=C21 tier=quick timeout=300 bounds="length prefix 4 followed by 4 arbitrary payload bytes" desc="String::deserialize with std's real UTF-8 validator: invalid UTF-8 and short payloads give Err, valid ones Ok; never panics" kernel="String::deserialize" cbmc="--unwindset _RNvNtNtCs8xvirJzNMvV_4core3str11validations19run_utf8_validation.0:2"
+#[kani::proof]
+#[kani::stub(std::fmt::format, crate::verif_support::fmt_stub)]
+#[kani::stub(crate::DbError::new, crate::verif_support::dberror_new_stub)]
+#[kani::stub(<crate::DbError as std::convert::From<std::array::TryFromSliceError>>::from, crate::verif_support::sliceerr_stub)]
+#[kani::stub(<crate::DbError as std::convert::From<std::num::TryFromIntError>>::from, crate::verif_support::interr_stub)]
+#[kani::stub(<crate::DbError as std::convert::From<std::string::FromUtf8Error>>::from, crate::verif_support::utf8err_stub)]
+#[kani::unwind(6)]
+fn c21_string_real_utf8() {
+    let p: [u8; 4] = kani::any();
+    // the input is a local array literal whose length prefix is a constant, so that
+    // the decoder sees concrete lengths (see the note on from_utf8_any); a choice
+    // between several such inputs in one harness already exhausts memory
+    let b = [4, 0, 0, 0, 0, 0, 0, 0, p[0], p[1], p[2], p[3]];
+    let valid = std::str::from_utf8(&p).is_ok();
+    let ok = c21_feed::<String>(&b);
+    assert!(ok == valid, "Ok exactly for valid UTF-8");
+    kani::cover!(ok && p[0] >= 0xf0, "a 4-byte scalar decodes");
+    kani::cover!(ok && p[0] < 0x80 && p[3] < 0x80, "ASCII decodes");
+    kani::cover!(!ok, "invalid UTF-8 rejected");
+    kani::cover!(true, "end of harness reachable");
+}
+
+//@ id=C21 tier=quick timeout=300 bounds="buffer of 0..=24 arbitrary bytes; length prefix <= 2^32-1; UTF-8 validity nondeterministic" desc="QueryId / CountComparison / DbKeyOrder-free derived enums: deserialize never panics, unknown variant bytes give Err" kernel="QueryId::deserialize,CountComparison::deserialize,DbId::deserialize,agdb_derive::db_serialize::serialize_enum" args="--no-assertion-reach-checks"
+#[kani::proof]
+#[kani::stub(std::fmt::format, crate::verif_support::fmt_stub)]
+#[kani::stub(crate::DbError::new, crate::verif_support::dberror_new_stub)]
+#[kani::stub(<crate::DbError as std::convert::From<std::array::TryFromSliceError>>::from, crate::verif_support::sliceerr_stub)]
+#[kani::stub(<crate::DbError as std::convert::From<std::num::TryFromIntError>>::from, crate::verif_support::interr_stub)]
+#[kani::stub(<crate::DbError as std::convert::From<std::string::FromUtf8Error>>::from, crate::verif_support::utf8err_stub)]
+#[kani::stub(std::string::String::from_utf8, from_utf8_any)]
+#[kani::stub(<usize as crate::utilities::serialize::Serialize>::deserialize, usize_deserialize_bounded)]
+#[kani::unwind(5)]
+fn c21_query_id_count_comparison() {
+    let buf: [u8; 24] = kani::any();
+    let n: usize = kani::any();
+    kani::assume(n <= 24);
+    let ok_q = c21_feed::<QueryId>(&buf[..n]);
+    let ok_c = c21_feed::<CountComparison>(&buf[..n]);
+    let ok_l = c21_feed::<QueryConditionLogic>(&buf[..n]);
+    let ok_m = c21_feed::<QueryConditionModifier>(&buf[..n]);
+    assert!(ok_c == (n >= 9 && buf[0] <= 5), "CountComparison: Ok iff known variant and 9 bytes");
+    assert!(ok_l == (n >= 1 && buf[0] <= 1), "QueryConditionLogic: Ok iff known variant");
+    assert!(ok_m == (n >= 1 && buf[0] <= 3), "QueryConditionModifier: Ok iff known variant");
+    assert!(!ok_q || (n >= 9 && buf[0] <= 1), "QueryId: Ok only for a known variant with its payload");
+    kani::cover!(ok_q && buf[0] == 1 && n == 24, "an alias decodes");
+    kani::cover!(ok_q && buf[0] == 0, "an id decodes");
+    kani::cover!(!ok_q && n >= 9 && buf[0] == 1, "a truncated alias is rejected");
+    kani::cover!(true, "end of harness reachable");
+}
+
+//@ id=C21 tier=quick timeout=300 bounds="buffer of 0..=24 arbitrary bytes; length prefix <= 2^32-1; UTF-8 validity nondeterministic" desc="derive(DbSerialize) corpus (named struct, tuple struct, unit struct, enum with unit/tuple/struct variants, generic struct): deserialize never panics, field offsets stay inside the input" kernel="agdb_derive::db_serialize::serialize_struct,agdb_derive::db_serialize::serialize_tuple,agdb_derive::db_serialize::serialize_enum" args="--no-assertion-reach-checks"
+#[kani::proof]
+#[kani::stub(std::fmt::format, crate::verif_support::fmt_stub)]
+#[kani::stub(crate::DbError::new, crate::verif_support::dberror_new_stub)]
+#[kani::stub(<crate::DbError as std::convert::From<std::array::TryFromSliceError>>::from, crate::verif_support::sliceerr_stub)]
+#[kani::stub(<crate::DbError as std::convert::From<std::num::TryFromIntError>>::from, crate::verif_support::interr_stub)]
+#[kani::stub(<crate::DbError as std::convert::From<std::string::FromUtf8Error>>::from, crate::verif_support::utf8err_stub)]
+#[kani::stub(std::string::String::from_utf8, from_utf8_any)]
+#[kani::stub(<usize as crate::utilities::serialize::Serialize>::deserialize, usize_deserialize_bounded)]
+#[kani::unwind(5)]
+fn c21_derive_corpus() {
+    let buf: [u8; 24] = kani::any();
+    let n: usize = kani::any();
+    kani::assume(n <= 24);
+    let ok_t = c21_feed::<C20Tuple>(&buf[..n]);
+    let ok_u = c21_feed::<C20Unit>(&buf[..n]);
+    let ok_e = c21_feed::<C20Enum>(&buf[..n]);
+    let ok_g = c21_feed::<C20Generic<bool>>(&buf[..n]);
+    assert!(ok_u, "the unit struct decodes from anything");
+    assert!(ok_g == (n >= 9), "generic<bool>: Ok iff 9 bytes");
+    assert!(!ok_e || buf[0] <= 3, "enum: Ok only for a known variant");
+    assert!(!ok_t || n >= 24, "tuple struct needs at least 8 + 8 + 8 bytes");
+    kani::cover!(ok_t, "tuple struct decodes");
+    kani::cover!(ok_e && buf[0] == 1, "tuple variant decodes");
+    kani::cover!(ok_e && buf[0] == 2 && n == 18, "struct variant decodes from exactly its size");
+    kani::cover!(!ok_e && buf[0] == 2 && n == 17, "struct variant one byte short rejected");
+    kani::cover!(true, "end of harness reachable");
+}
+
+// --- DbValue and the types built on it: variant tags pinned, everything else arbitrary
+//
+// Fully arbitrary input does not finish for these types (every variant of every
+// nested enum is explored for every field; 10 GB exhausted). The variant tag bytes
+// are therefore literals in a local array of concrete length; all other bytes
+// (length prefixes, payload) are arbitrary.
+
+/// Feeds `$ty::deserialize` an arbitrary `[u8; $n]` with the listed bytes pinned.
+macro_rules! c21_pinned {
+    ($ty:ty, $n:literal, [$(($i:literal, $v:literal)),*]) => {{
+        let mut b: [u8; $n] = kani::any();
+        $( b[$i] = $v; )*
+        // plain outcome only: asking the decoded value for its size walks every
+        // variant of the merged result again and multiplies the cost
+        let r = <$ty>::deserialize(&b);
+        let ok = r.is_ok();
+        std::mem::forget(r);
+        ok
+    }};
+}
+
+//@ id=C21 tier=quick timeout=300 bounds="DbValue tag in {Bytes, I64, F64, String, 9 (unknown)} x input length in {1, 8, 9, 13, 24}; all other bytes arbitrary; length prefix <= 2^32-1; UTF-8 validity nondeterministic" desc="DbValue::deserialize (scalar, bytes and string variants) never panics; fixed-size variants are Ok iff 9 bytes; unknown tags are rejected" kernel="DbValue::deserialize" args="--no-assertion-reach-checks"
+#[kani::proof]
+#[kani::stub(std::fmt::format, crate::verif_support::fmt_stub)]
+#[kani::stub(crate::DbError::new, crate::verif_support::dberror_new_stub)]
+#[kani::stub(<crate::DbError as std::convert::From<std::array::TryFromSliceError>>::from, crate::verif_support::sliceerr_stub)]
+#[kani::stub(<crate::DbError as std::convert::From<std::num::TryFromIntError>>::from, crate::verif_support::interr_stub)]
+#[kani::stub(<crate::DbError as std::convert::From<std::string::FromUtf8Error>>::from, crate::verif_support::utf8err_stub)]
+#[kani::stub(std::string::String::from_utf8, from_utf8_any)]
+#[kani::stub(<usize as crate::utilities::serialize::Serialize>::deserialize, usize_deserialize_bounded)]
+#[kani::unwind(5)]
+fn c21_db_value_flat_tags() {
+    // Bytes
+    assert!(!c21_pinned!(DbValue, 1, [(0, 0)]), "Bytes: tag only is rejected");
+    assert!(!c21_pinned!(DbValue, 8, [(0, 0)]), "Bytes: partial prefix is rejected");
+    let b9 = c21_pinned!(DbValue, 9, [(0, 0)]);
+    let b13 = c21_pinned!(DbValue, 13, [(0, 0)]);
+    let b24 = c21_pinned!(DbValue, 24, [(0, 0)]);
+    // I64 / F64
+    assert!(!c21_pinned!(DbValue, 1, [(0, 1)]), "I64: tag only is rejected");
+    assert!(!c21_pinned!(DbValue, 8, [(0, 1)]), "I64: 7 payload bytes are rejected");
+    assert!(c21_pinned!(DbValue, 9, [(0, 1)]), "I64: 8 payload bytes decode");
+    assert!(c21_pinned!(DbValue, 24, [(0, 1)]), "I64: trailing bytes are ignored");
+    assert!(!c21_pinned!(DbValue, 8, [(0, 3)]), "F64: 7 payload bytes are rejected");
+    assert!(c21_pinned!(DbValue, 9, [(0, 3)]), "F64: 8 payload bytes decode");
+    // String
+    assert!(!c21_pinned!(DbValue, 8, [(0, 4)]), "String: partial prefix is rejected");
+    let s9 = c21_pinned!(DbValue, 9, [(0, 4)]);
+    let s13 = c21_pinned!(DbValue, 13, [(0, 4)]);
+    let s24 = c21_pinned!(DbValue, 24, [(0, 4)]);
+    // unknown variants
+    assert!(!c21_pinned!(DbValue, 24, [(0, 9)]), "tag 9 is not a DbValue");
+    assert!(!c21_pinned!(DbValue, 24, [(0, 255)]), "tag 255 is not a DbValue");
+    kani::cover!(b9 && b13 && b24, "bytes decode at every length");
+    kani::cover!(!b9 && !b13 && !b24, "bytes rejected at every length");
+    kani::cover!(s9 && s13 && s24, "strings decode at every length");
+    kani::cover!(!s24, "string rejected");
+    kani::cover!(true, "end of harness reachable");
+}
+
+//@ id=C21 tier=quick timeout=1000 bounds="DbValue tag in {VecI64, VecU64, VecF64} x input length in {9, 17, 24}; all other bytes arbitrary; length prefix <= 2^32-1" desc="DbValue::deserialize (numeric vector variants) never panics" kernel="DbValue::deserialize,Vec<T>::deserialize" args="--no-assertion-reach-checks"
+#[kani::proof]
+#[kani::stub(std::fmt::format, crate::verif_support::fmt_stub)]
+#[kani::stub(crate::DbError::new, crate::verif_support::dberror_new_stub)]
+#[kani::stub(<crate::DbError as std::convert::From<std::array::TryFromSliceError>>::from, crate::verif_support::sliceerr_stub)]
+#[kani::stub(<crate::DbError as std::convert::From<std::num::TryFromIntError>>::from, crate::verif_support::interr_stub)]
+#[kani::stub(<usize as crate::utilities::serialize::Serialize>::deserialize, usize_deserialize_bounded)]
+#[kani::unwind(5)]
+fn c21_db_value_numeric_vector_tags() {
+    let i9 = c21_pinned!(DbValue, 9, [(0, 5)]);
+    let i17 = c21_pinned!(DbValue, 17, [(0, 5)]);
+    let i24 = c21_pinned!(DbValue, 24, [(0, 5)]);
+    let u9 = c21_pinned!(DbValue, 9, [(0, 6)]);
+    let u24 = c21_pinned!(DbValue, 24, [(0, 6)]);
+    let f17 = c21_pinned!(DbValue, 17, [(0, 7)]);
+    let f24 = c21_pinned!(DbValue, 24, [(0, 7)]);
+    kani::cover!(i9 && i17 && i24, "i64 vectors decode at every length");
+    kani::cover!(!i9 && !i17 && !i24, "i64 vectors rejected at every length");
+    kani::cover!(u9 && u24, "u64 vectors decode");
+    kani::cover!(f17 && !f24, "f64 vector of one element; two announced but truncated");
+    kani::cover!(true, "end of harness reachable");
+}
+
+//@ id=C21 tier=thorough timeout=1200 bounds="24 arbitrary bytes (fixed input length); length prefixes <= 2^32-1; UTF-8 validity nondeterministic" desc="Vec<String>::deserialize never panics (the DbValue::VecString payload decoder; the DbValue wrapper itself exhausts memory)" kernel="Vec<T>::deserialize,String::deserialize" args="--no-assertion-reach-checks"
+#[kani::proof]
+#[kani::stub(std::fmt::format, crate::verif_support::fmt_stub)]
+#[kani::stub(crate::DbError::new, crate::verif_support::dberror_new_stub)]
+#[kani::stub(<crate::DbError as std::convert::From<std::array::TryFromSliceError>>::from, crate::verif_support::sliceerr_stub)]
+#[kani::stub(<crate::DbError as std::convert::From<std::num::TryFromIntError>>::from, crate::verif_support::interr_stub)]
+#[kani::stub(<crate::DbError as std::convert::From<std::string::FromUtf8Error>>::from, crate::verif_support::utf8err_stub)]
+#[kani::stub(std::string::String::from_utf8, from_utf8_any)]
+#[kani::stub(<usize as crate::utilities::serialize::Serialize>::deserialize, usize_deserialize_bounded)]
+#[kani::unwind(5)]
+fn c21_vec_string_fixed_len() {
+    let ok = c21_pinned!(Vec<String>, 24, []);
+    kani::cover!(ok, "a string vector decodes");
+    kani::cover!(!ok, "a string vector is rejected");
+    kani::cover!(true, "end of harness reachable");
+}
+
+//@ id=C21 tier=quick timeout=500 bounds="Comparison tag in {Equal, 9 (unknown)} over DbValue tag I64, DbKeyOrder::Desc over DbValue tag Bytes; input lengths 2/10/24; all other bytes arbitrary; length prefix <= 2^32-1" desc="Comparison / DbKeyOrder deserialize never panic; unknown outer or inner tags and truncated values are rejected" kernel="Comparison::deserialize,DbKeyOrder::deserialize,DbValue::deserialize" args="--no-assertion-reach-checks"
+#[kani::proof]
+#[kani::stub(std::fmt::format, crate::verif_support::fmt_stub)]
+#[kani::stub(crate::DbError::new, crate::verif_support::dberror_new_stub)]
+#[kani::stub(<crate::DbError as std::convert::From<std::array::TryFromSliceError>>::from, crate::verif_support::sliceerr_stub)]
+#[kani::stub(<crate::DbError as std::convert::From<std::num::TryFromIntError>>::from, crate::verif_support::interr_stub)]
+#[kani::stub(<crate::DbError as std::convert::From<std::string::FromUtf8Error>>::from, crate::verif_support::utf8err_stub)]
+#[kani::stub(std::string::String::from_utf8, from_utf8_any)]
+#[kani::stub(<usize as crate::utilities::serialize::Serialize>::deserialize, usize_deserialize_bounded)]
+#[kani::unwind(5)]
+fn c21_comparison_and_key_order() {
+    assert!(!c21_pinned!(Comparison, 2, [(0, 0), (1, 1)]), "Comparison: truncated value is rejected");
+    assert!(c21_pinned!(Comparison, 10, [(0, 0), (1, 1)]), "Comparison::Equal(i64) decodes from 10 bytes");
+    assert!(!c21_pinned!(Comparison, 24, [(0, 9), (1, 1)]), "Comparison: tag 9 is unknown");
+    let o_bytes = c21_pinned!(DbKeyOrder, 24, [(0, 1), (1, 0)]);
+    kani::cover!(o_bytes, "Desc(bytes) decodes");
+    kani::cover!(!o_bytes, "Desc(bytes) rejected");
+    kani::cover!(true, "end of harness reachable");
+}
+
+//@ id=C21 tier=quick timeout=300 bounds="DbKeyValue with key tag I64 and value tag in {I64, 9 (unknown)}; input lengths 9/10/18/24; all other bytes arbitrary; length prefix <= 2^32-1" desc="DbKeyValue::deserialize never panics; the second field is decoded at the offset after the first; missing/truncated/unknown values are rejected" kernel="DbKeyValue::deserialize,DbValue::deserialize" args="--no-assertion-reach-checks"
+#[kani::proof]
+#[kani::stub(std::fmt::format, crate::verif_support::fmt_stub)]
+#[kani::stub(crate::DbError::new, crate::verif_support::dberror_new_stub)]
+#[kani::stub(<crate::DbError as std::convert::From<std::array::TryFromSliceError>>::from, crate::verif_support::sliceerr_stub)]
+#[kani::stub(<crate::DbError as std::convert::From<std::num::TryFromIntError>>::from, crate::verif_support::interr_stub)]
+#[kani::stub(<crate::DbError as std::convert::From<std::string::FromUtf8Error>>::from, crate::verif_support::utf8err_stub)]
+#[kani::stub(std::string::String::from_utf8, from_utf8_any)]
+#[kani::stub(<usize as crate::utilities::serialize::Serialize>::deserialize, usize_deserialize_bounded)]
+#[kani::unwind(5)]
+fn c21_key_value_pinned_tags() {
+    assert!(!c21_pinned!(DbKeyValue, 9, [(0, 1)]), "DbKeyValue: missing value is rejected");
+    assert!(!c21_pinned!(DbKeyValue, 10, [(0, 1), (9, 1)]), "DbKeyValue: truncated value is rejected");
+    assert!(c21_pinned!(DbKeyValue, 18, [(0, 1), (9, 1)]), "DbKeyValue {i64, i64} decodes from 18 bytes");
+    assert!(!c21_pinned!(DbKeyValue, 24, [(0, 1), (9, 9)]), "DbKeyValue: value tag 9 is unknown");
+    kani::cover!(true, "end of harness reachable");
+}
